@@ -1,5 +1,5 @@
 (* Proofs about Model/NetAdapter.v: reference-count invariant, exactly-once delivery invariant,
-   "sessions end" (refuted in full, proved under the delivery hypothesis), the io.Reader/io.Writer
+   "sessions end at rest after listener Close" (proved in full for the repaired adapter), the io.Reader/io.Writer
    contract of linkedBuffer.read / copyWriteAndFlush as a refinement to a byte queue. *)
 From Coq Require Import List ZArith Lia Bool Arith Permutation.
 From Shm Require Import Model.NetAdapter.
@@ -40,6 +40,8 @@ Qed.
 (* ---------------------------------------------------------------------------------------- *)
 (* the reference-count invariant                                                              *)
 (* ---------------------------------------------------------------------------------------- *)
+Definition past_cas (c : close_pc) : bool := match c with CSig | CDrain | CRel => true | _ => false end.
+
 Record RInv (st : state) : Prop := {
   r_panic : panic st = false;
   r_refs : forall s, (s < nsess st)%nat ->
@@ -49,11 +51,14 @@ Record RInv (st : state) : Prop := {
            refs (sess_of st s) = 0 -> wg_zero (sess_of st s) = true;
   r_zc : forall s, (s < nsess st)%nat -> wg_zero (sess_of st s) = true -> sclosed (sess_of st s) = true;
   r_unreg : forall s, (s < nsess st)%nat -> registered (sess_of st s) = false ->
-            sclosed (sess_of st s) = true /\ in_map (sess_of st s) = false /\ loop (sess_of st s) = LExited /\ refs (sess_of st s) = 0;
+            sclosed (sess_of st s) = true /\ in_map (sess_of st s) = false /\
+            loop (sess_of st s) = LExited /\ refs (sess_of st s) = 0;
   r_rel : lreleased st = true -> lmark st = true /\ forall s, (s < nsess st)%nat -> in_map (sess_of st s) = false;
   r_deliv : forall w, In w (delivered st) -> (w < nwr st)%nat;
   r_bl : forall w, In w (backlog st) -> (w < nwr st)%nat;
-  r_sel : forall s w, (s < nsess st)%nat -> loop (sess_of st s) = LSelecting w -> (w < nwr st)%nat }.
+  r_cl : forall w, In w (closing st) -> (w < nwr st)%nat;
+  r_sel : forall s w, (s < nsess st)%nat -> loop (sess_of st s) = LSelecting w -> (w < nwr st)%nat;
+  r_clmark : forall k, past_cas (cl_of st k) = true -> lmark st = true }.
 
 Lemma rinv_init : forall c, RInv (init c).
 Proof.
@@ -92,6 +97,111 @@ Ltac updf_cases :=
   unfold updf;
   match goal with |- context [Nat.eqb ?a ?b] => destruct (Nat.eqb_spec a b) as [?|?]; subst; cbn end.
 
+Lemma open_w_ext : forall st st' s, nwr st' = nwr st -> (forall w, wr st' w = wr st w) -> open_w st' s = open_w st s.
+Proof.
+  intros st st' s Hn Hw. unfold open_w. rewrite Hn. apply count_ext. intros w _. rewrite Hw. reflexivity.
+Qed.
+
+(* steps that leave counters, map membership, wrappers and flags alone *)
+Lemma rinv_frame : forall st st',
+  RInv st ->
+  nsess st' = nsess st -> nwr st' = nwr st -> (forall w, wr st' w = wr st w) ->
+  panic st' = panic st -> (lmark st = true -> lmark st' = true) -> lreleased st' = lreleased st ->
+  (forall s, (s < nsess st)%nat ->
+     refs (sess_of st' s) = refs (sess_of st s) /\ in_map (sess_of st' s) = in_map (sess_of st s) /\
+     registered (sess_of st' s) = registered (sess_of st s) /\ wg_zero (sess_of st' s) = wg_zero (sess_of st s) /\
+     (sclosed (sess_of st s) = true -> sclosed (sess_of st' s) = true) /\
+     (registered (sess_of st s) = false -> loop (sess_of st' s) = LExited)) ->
+  (forall w, In w (delivered st') -> (w < nwr st)%nat) ->
+  (forall w, In w (backlog st') -> (w < nwr st)%nat) ->
+  (forall w, In w (closing st') -> (w < nwr st)%nat) ->
+  (forall s w, (s < nsess st)%nat -> loop (sess_of st' s) = LSelecting w -> (w < nwr st)%nat) ->
+  (forall k, past_cas (cl_of st' k) = true -> lmark st' = true) ->
+  RInv st'.
+Proof.
+  intros st st' HI Hns Hnw Hwr Hp Hlm Hlr Hs Hd Hb Hc Hsel Hcl.
+  constructor.
+  - rewrite Hp. exact (r_panic st HI).
+  - intros s Hlt. rewrite Hns in Hlt. destruct (Hs s Hlt) as [A [B _]]. rewrite A, B.
+    rewrite (open_w_ext st st' s Hnw Hwr). apply (r_refs st HI); assumption.
+  - intros w Hw. rewrite Hnw in Hw. rewrite Hwr, Hns. apply (r_wsess st HI); assumption.
+  - intros s Hlt. rewrite Hns in Hlt. destruct (Hs s Hlt) as [A [_ [C [D _]]]]. rewrite A, C, D. apply (r_zero st HI); assumption.
+  - intros s Hlt. rewrite Hns in Hlt. destruct (Hs s Hlt) as [_ [_ [_ [D [E _]]]]]. rewrite D. intro Hz. apply E. apply (r_zc st HI); assumption.
+  - intros s Hlt. rewrite Hns in Hlt. destruct (Hs s Hlt) as [A [B [C [_ [E F]]]]]. rewrite A, B, C. intro Hr.
+    destruct (r_unreg st HI s Hlt Hr) as [U1 [U2 [U3 U4]]]. repeat split; auto.
+  - rewrite Hlr. intro Hr. destruct (r_rel st HI Hr) as [Hm Hall]. split; [auto|].
+    intros s Hlt. rewrite Hns in Hlt. destruct (Hs s Hlt) as [_ [B _]]. rewrite B. apply Hall; assumption.
+  - intros w Hw. rewrite Hnw. auto.
+  - intros w Hw. rewrite Hnw. auto.
+  - intros w Hw. rewrite Hnw. auto.
+  - intros s w Hlt. rewrite Hns in Hlt. rewrite Hnw. apply Hsel; assumption.
+  - exact Hcl.
+Qed.
+
+(* conn.Close() on a conn that somebody holds (w < nwr) *)
+Lemma rinv_close_wrapper : forall st w, RInv st -> (w < nwr st)%nat -> RInv (close_wrapper st w).
+Proof.
+  intros st w HI Hw. unfold close_wrapper. destruct (w_closed (wr st w)) eqn:EC; [exact HI|].
+  pose proof (r_panic st HI) as Hp.
+  pose proof (r_wsess st HI w Hw) as Hs.
+  remember (w_sess (wr st w)) as s eqn:Es.
+  assert (Hflip : S (count (fun k => Nat.eqb (w_sess (updf (wr st) w {| w_sess := s; w_ord := w_ord (wr st w); w_closed := true |} k)) s
+                                 && negb (w_closed (updf (wr st) w {| w_sess := s; w_ord := w_ord (wr st w); w_closed := true |} k))) (nwr st))
+                  = open_w st s).
+  { unfold open_w. apply (count_flip (nwr st) _ _ w Hw).
+    - rewrite <- Es. rewrite Nat.eqb_refl, EC. reflexivity.
+    - unfold updf. rewrite Nat.eqb_refl. cbn. apply andb_false_r.
+    - intros k Hk. unfold updf. destruct (Nat.eqb_spec k w); [congruence|reflexivity]. }
+  assert (Hge : 1 <= refs (sess_of st s)).
+  { rewrite (r_refs st HI s Hs). rewrite <- Hflip. unfold b2z. destruct (in_map _); lia. }
+  constructor; cbn [nsess sess_of nwr wr panic lreleased lmark delivered backlog closing cl_of lmark]; try (exact (r_clmark st HI));
+    try (exact (r_deliv st HI)); try (exact (r_bl st HI)); try (exact (r_cl st HI)).
+  + rewrite Hp. unfold done_panics. cbn. apply Z.ltb_ge. lia.
+  + intros s0 Hs0. unfold open_w; cbn [nwr wr].
+    destruct (Nat.eq_dec s0 s) as [->|Hne].
+    * rewrite updf_same. cbn [done1 refs in_map]. rewrite (r_refs st HI _ Hs0). rewrite <- Hflip. lia.
+    * rewrite updf_other by assumption. rewrite (r_refs st HI _ Hs0). f_equal. f_equal. unfold open_w. apply count_ext. intros k Hk.
+      unfold updf. destruct (Nat.eqb_spec k w); [|reflexivity]. subst k. cbn.
+      rewrite <- Es. destruct (Nat.eqb_spec s s0); [congruence|]. reflexivity.
+  + intros k Hk. unfold updf. destruct (Nat.eqb_spec k w); cbn; [assumption|]. apply (r_wsess st HI); assumption.
+  + intros s0 Hs0. updf_cases.
+    * intros _ Hz. rewrite Hz. cbn. apply orb_true_r.
+    * apply (r_zero st HI); assumption.
+  + intros s0 Hs0. updf_cases.
+    * intro Hz. apply orb_prop in Hz. destruct Hz as [Hz|Hz].
+      -- rewrite (r_zc st HI _ Hs0 Hz). reflexivity.
+      -- rewrite Hz. apply orb_true_r.
+    * apply (r_zc st HI); assumption.
+  + intros s0 Hs0. updf_cases.
+    * intro Hr. destruct (r_unreg st HI _ Hs0 Hr) as [_ [_ [_ Hz]]]. lia.
+    * apply (r_unreg st HI); assumption.
+  + intro Hr. destruct (r_rel st HI Hr) as [Hm Hall]. split; [assumption|].
+    intros s0 Hs0. updf_cases; apply Hall; assumption.
+  + intros s0 k Hs0. updf_cases; apply (r_sel st HI); assumption.
+Qed.
+
+Lemma in_remove_w : forall w x l, In x (remove_w w l) -> In x l /\ x <> w.
+Proof.
+  intros w x l H. unfold remove_w in H. apply filter_In in H. destruct H as [H1 H2].
+  split; [assumption|]. apply negb_true_iff in H2. apply Nat.eqb_neq in H2. assumption.
+Qed.
+
+Ltac frame_sess st HI s0 :=
+  let s := fresh "s" in let Hs := fresh "Hs" in
+  intros s Hs; unfold updf; destruct (Nat.eqb_spec s s0) as [->|?]; cbn;
+  [ repeat split; auto;
+    let Hr := fresh "Hr" in intro Hr;
+    let U := fresh "U" in destruct (r_unreg st HI _ Hs Hr) as [_ [_ [U _]]]; try congruence
+  | repeat split; auto; let Hr := fresh "Hr" in intro Hr; apply (r_unreg st HI _ Hs Hr) ].
+
+Ltac clmark st HI :=
+  let k0 := fresh "k0" in
+  intro k0; unfold set_cl, updf; cbn [cl_of lmark]; unfold updf;
+  match goal with |- context [Nat.eqb k0 ?b] => destruct (Nat.eqb_spec k0 b) end;
+  cbn; intros; try discriminate; try reflexivity; try assumption;
+  try (apply (r_clmark st HI k0); assumption);
+  try (subst; match goal with EK : cl_of st ?k = _ |- _ => apply (r_clmark st HI k); rewrite EK; reflexivity end).
+
 Lemma rinv_step : forall st e, RInv st -> RInv (exec st e).
 Proof.
   intros st e HI. unfold exec. destruct (enabled st e) eqn:En; [|exact HI].
@@ -101,8 +211,8 @@ Proof.
     assert (Hopen : open_w st (nsess st) = O).
     { unfold open_w. apply count_false. intros w Hw. pose proof (r_wsess st HI w Hw) as Hlt.
       destruct (Nat.eqb_spec (w_sess (wr st w)) (nsess st)); [lia|reflexivity]. }
-    constructor; cbn [step nsess sess_of nwr wr panic lreleased lmark delivered backlog]; try exact Hp;
-      try (exact (r_deliv st HI)); try (exact (r_bl st HI)).
+    constructor; cbn [step nsess sess_of nwr wr panic lreleased lmark delivered backlog closing cl_of lmark]; try exact Hp; try (exact (r_clmark st HI));
+      try (exact (r_deliv st HI)); try (exact (r_bl st HI)); try (exact (r_cl st HI)).
     + intros s Hs. change (open_w _ s) with (open_w st s). updf_cases.
       * rewrite Hopen. destruct (lmark st); reflexivity.
       * apply (r_refs st HI); lia.
@@ -124,18 +234,15 @@ Proof.
       * destruct (lmark st); cbn; discriminate.
       * apply (r_sel st HI); lia.
   - (* StreamIn *)
-    constructor; cbn [step set_sess nsess sess_of nwr wr panic lreleased lmark delivered backlog];
-      try (rewrite Hp; reflexivity); try (exact (r_deliv st HI)); try (exact (r_bl st HI)); try (exact (r_wsess st HI)).
-    + intros s0 Hs. change (open_w _ s0) with (open_w st s0). updf_cases; apply (r_refs st HI); assumption.
-    + intros s0 Hs. updf_cases; apply (r_zero st HI); assumption.
-    + intros s0 Hs. updf_cases; apply (r_zc st HI); assumption.
-    + intros s0 Hs. updf_cases; apply (r_unreg st HI); assumption.
-    + intro Hr. destruct (r_rel st HI Hr) as [Hm Hall]. split; [assumption|].
-      intros s0 Hs. updf_cases; apply Hall; assumption.
-    + intros s0 w Hs. updf_cases; apply (r_sel st HI); assumption.
+    apply (rinv_frame st); auto; try (cbn; apply orb_false_r); cbn [step set_sess set_sessions sess_of delivered backlog closing cl_of lmark]; try (exact (r_clmark st HI));
+      try (exact (r_deliv st HI)); try (exact (r_bl st HI)); try (exact (r_cl st HI)).
+    + intros s0 Hs0. unfold updf. destruct (Nat.eqb_spec s0 s) as [->|?]; cbn.
+      * repeat split; auto. intro Hr. congruence.
+      * repeat split; auto. intro Hr. apply (r_unreg st HI _ Hs0 Hr).
+    + intros s0 w Hs0. updf_cases; apply (r_sel st HI); assumption.
   - (* Wrap *)
     rename H into Hs.
-    constructor; cbn [step nsess sess_of nwr wr panic lreleased lmark delivered backlog]; try exact Hp.
+    constructor; cbn [step nsess sess_of nwr wr panic lreleased lmark delivered backlog closing cl_of lmark]; try exact Hp; try (exact (r_clmark st HI)).
     + intros s0 Hs0. unfold open_w; cbn [nwr wr count]. rewrite !updf_same. cbn [w_sess w_closed negb].
       rewrite andb_true_r.
       assert (Hc : count (fun w => Nat.eqb (w_sess (updf (wr st) (nwr st) {| w_sess := s; w_ord := wrapped (sess_of st s); w_closed := false |} w)) s0
@@ -150,55 +257,65 @@ Proof.
       * intros _ Hz. pose proof (refs_nonneg st _ HI Hs0). lia.
       * apply (r_zero st HI); assumption.
     + intros s0 Hs0. updf_cases; apply (r_zc st HI); assumption.
-    + intros s0 Hs0. updf_cases; [|apply (r_unreg st HI); assumption]. intro Hr. destruct (r_unreg st HI _ Hs0 Hr) as [_ [_ [Hl _]]]. rewrite Hl in H1. discriminate.
+    + intros s0 Hs0. updf_cases; [|apply (r_unreg st HI); assumption].
+      intro Hr. destruct (r_unreg st HI _ Hs0 Hr) as [_ [_ [Hl _]]]. rewrite Hl in H1. discriminate.
     + intro Hr. destruct (r_rel st HI Hr) as [Hm Hall]. split; [assumption|].
       intros s0 Hs0. updf_cases; apply Hall; assumption.
     + intros w Hw. pose proof (r_deliv st HI w Hw). lia.
     + intros w Hw. pose proof (r_bl st HI w Hw). lia.
+    + intros w Hw. pose proof (r_cl st HI w Hw). lia.
     + intros s0 w Hs0. updf_cases.
       * intro E; inversion E; lia.
       * intro E. pose proof (r_sel st HI s0 w Hs0 E). lia.
   - (* Enqueue *)
-    rename H into Hs. cbn [step]. destruct (loop (sess_of st s)) as [|w0|] eqn:EL; try discriminate.
-    constructor; cbn [nsess sess_of nwr wr panic lreleased lmark delivered backlog]; try exact Hp;
-      try (exact (r_deliv st HI)); try (exact (r_wsess st HI)).
-    + intros s0 Hs0. change (open_w _ s0) with (open_w st s0). updf_cases; apply (r_refs st HI); assumption.
-    + intros s0 Hs0. updf_cases; apply (r_zero st HI); assumption.
-    + intros s0 Hs0. updf_cases; apply (r_zc st HI); assumption.
-    + intros s0 Hs0. updf_cases; [|apply (r_unreg st HI); assumption]. intro Hr. destruct (r_unreg st HI _ Hs0 Hr) as [_ [_ [Hl _]]]. congruence.
-    + intro Hr. destruct (r_rel st HI Hr) as [Hm Hall]. split; [assumption|].
-      intros s0 Hs0. updf_cases; apply Hall; assumption.
+    rename H into Hs. cbn [step]. destruct (loop (sess_of st s)) as [|w0| | |] eqn:EL; try discriminate.
+    apply (rinv_frame st); auto; try (cbn; apply orb_false_r); cbn [sess_of delivered backlog closing cl_of lmark]; try (exact (r_clmark st HI));
+      try (exact (r_deliv st HI)); try (exact (r_cl st HI)).
+    + frame_sess st HI s.
     + intros w Hw. apply in_app_or in Hw. destruct Hw as [Hw|[<-|[]]]; [apply (r_bl st HI); assumption|].
       apply (r_sel st HI s w0 Hs EL).
     + intros s0 w Hs0. updf_cases; [discriminate|]. apply (r_sel st HI); assumption.
   - (* Lose *)
-    rename H into Hs. cbn [step]. destruct (loop (sess_of st s)) as [|w0|] eqn:EL; try discriminate.
-    constructor; cbn [nsess sess_of nwr wr panic lreleased lmark delivered backlog]; try exact Hp;
-      try (exact (r_deliv st HI)); try (exact (r_bl st HI)); try (exact (r_wsess st HI)).
-    + intros s0 Hs0. change (open_w _ s0) with (open_w st s0). updf_cases; apply (r_refs st HI); assumption.
-    + intros s0 Hs0. updf_cases; apply (r_zero st HI); assumption.
-    + intros s0 Hs0. updf_cases; apply (r_zc st HI); assumption.
-    + intros s0 Hs0. updf_cases; [|apply (r_unreg st HI); assumption]. intro Hr. destruct (r_unreg st HI _ Hs0 Hr) as [_ [_ [Hl _]]]. congruence.
-    + intro Hr. destruct (r_rel st HI Hr) as [Hm Hall]. split; [assumption|].
-      intros s0 Hs0. updf_cases; apply Hall; assumption.
+    rename H into Hs. cbn [step]. destruct (loop (sess_of st s)) as [|w0| | |] eqn:EL; try discriminate.
+    apply (rinv_frame st); auto; try (cbn; apply orb_false_r); cbn [sess_of delivered backlog closing cl_of lmark]; try (exact (r_clmark st HI));
+      try (exact (r_deliv st HI)); try (exact (r_bl st HI)).
+    + frame_sess st HI s.
+    + intros w Hw. apply in_app_or in Hw. destruct Hw as [Hw|[<-|[]]]; [apply (r_cl st HI); assumption|].
+      apply (r_sel st HI s w0 Hs EL).
     + intros s0 w Hs0. updf_cases; [discriminate|]. apply (r_sel st HI); assumption.
+  - (* PostCheck *)
+    rename H into Hs. destruct (loop (sess_of st s)) eqn:EL; try discriminate.
+    apply (rinv_frame st); auto; try (cbn; apply orb_false_r); cbn [step set_sess set_sessions sess_of delivered backlog closing cl_of lmark]; try (exact (r_clmark st HI));
+      try (exact (r_deliv st HI)); try (exact (r_bl st HI)); try (exact (r_cl st HI)).
+    + frame_sess st HI s.
+    + intros s0 w Hs0. updf_cases; [destruct (closeCh st); discriminate|]. apply (r_sel st HI); assumption.
+  - (* GDrain *)
+    rename H into Hs. destruct (loop (sess_of st s)) eqn:EL; try discriminate.
+    cbn [step]. destruct (backlog st) as [|w0 r] eqn:EB.
+    + apply (rinv_frame st); auto; try (cbn; apply orb_false_r); cbn [set_sess set_sessions sess_of delivered backlog closing cl_of lmark]; try (exact (r_clmark st HI));
+        try (exact (r_deliv st HI)); try (exact (r_cl st HI)); try (rewrite EB; intros w []).
+      * frame_sess st HI s.
+      * intros s0 w Hs0. updf_cases; [discriminate|]. apply (r_sel st HI); assumption.
+    + unfold take_head. rewrite EB.
+      apply (rinv_frame st); auto; try (cbn; apply orb_false_r); cbn [sess_of delivered backlog closing cl_of lmark]; try (exact (r_clmark st HI));
+        try (exact (r_deliv st HI)); try (exact (r_sel st HI)).
+      * intros s0 Hs0. repeat split; auto. intro Hr. apply (r_unreg st HI _ Hs0 Hr).
+      * intros w Hw. apply (r_bl st HI). rewrite EB. right; assumption.
+      * intros w Hw. apply in_app_or in Hw. destruct Hw as [Hw|[<-|[]]]; [apply (r_cl st HI); assumption|].
+        apply (r_bl st HI). rewrite EB. left; reflexivity.
   - (* SessionDie *)
-    constructor; cbn [step set_sess nsess sess_of nwr wr panic lreleased lmark delivered backlog];
-      try (rewrite Hp; reflexivity); try (exact (r_deliv st HI)); try (exact (r_bl st HI)); try (exact (r_wsess st HI)).
-    + intros s0 Hs. change (open_w _ s0) with (open_w st s0). updf_cases; apply (r_refs st HI); assumption.
-    + intros s0 Hs. updf_cases; apply (r_zero st HI); assumption.
-    + intros s0 Hs. updf_cases; [reflexivity|]. apply (r_zc st HI); assumption.
-    + intros s0 Hs. updf_cases; [|apply (r_unreg st HI); assumption].
-      intro Hr. split; [reflexivity|]. apply (r_unreg st HI _ Hs Hr).
-    + intro Hr. destruct (r_rel st HI Hr) as [Hm Hall]. split; [assumption|].
-      intros s0 Hs0. updf_cases; apply Hall; assumption.
+    apply (rinv_frame st); auto; try (cbn; apply orb_false_r); cbn [step set_sess set_sessions sess_of delivered backlog closing cl_of lmark]; try (exact (r_clmark st HI));
+      try (exact (r_deliv st HI)); try (exact (r_bl st HI)); try (exact (r_cl st HI)).
+    + intros s0 Hs0. unfold updf. destruct (Nat.eqb_spec s0 s) as [->|?]; cbn.
+      * repeat split; auto. intro Hr. apply (r_unreg st HI _ Hs0 Hr).
+      * repeat split; auto. intro Hr. apply (r_unreg st HI _ Hs0 Hr).
     + intros s0 w Hs0. updf_cases; apply (r_sel st HI); assumption.
   - (* AcceptErr *)
     rename H into Hs. cbn [step]. destruct (in_map (sess_of st s)) eqn:EM.
     + assert (Hge : 1 <= refs (sess_of st s)).
       { rewrite (r_refs st HI s Hs). rewrite EM. unfold b2z. lia. }
-      constructor; cbn [set_sess nsess sess_of nwr wr panic lreleased lmark delivered backlog done1 refs in_map registered sclosed wg_zero loop];
-        try (exact (r_deliv st HI)); try (exact (r_bl st HI)); try (exact (r_wsess st HI)).
+      constructor; cbn [set_sess set_sessions nsess sess_of nwr wr panic lreleased lmark delivered backlog closing cl_of done1 refs in_map registered sclosed wg_zero loop]; try (exact (r_clmark st HI));
+        try (exact (r_deliv st HI)); try (exact (r_bl st HI)); try (exact (r_cl st HI)); try (exact (r_wsess st HI)).
       * rewrite Hp. unfold done_panics. cbn. apply Z.ltb_ge. lia.
       * intros s0 Hs0. change (open_w _ s0) with (open_w st s0). updf_cases.
         -- rewrite (r_refs st HI _ Hs0). rewrite EM. unfold b2z. lia.
@@ -217,108 +334,97 @@ Proof.
       * intro Hr. destruct (r_rel st HI Hr) as [Hm Hall]. split; [assumption|].
         intros s0 Hs0. updf_cases; [reflexivity|]. apply Hall; assumption.
       * intros s0 w Hs0. updf_cases; [discriminate|]. apply (r_sel st HI); assumption.
-    + constructor; cbn [set_sess nsess sess_of nwr wr panic lreleased lmark delivered backlog];
-        try (rewrite Hp; reflexivity); try (exact (r_deliv st HI)); try (exact (r_bl st HI)); try (exact (r_wsess st HI)).
-      * intros s0 Hs0. change (open_w _ s0) with (open_w st s0). updf_cases; apply (r_refs st HI); assumption.
-      * intros s0 Hs0. updf_cases; apply (r_zero st HI); assumption.
-      * intros s0 Hs0. updf_cases; apply (r_zc st HI); assumption.
-      * intros s0 Hs0. updf_cases; [|apply (r_unreg st HI); assumption]. intro Hr. destruct (r_unreg st HI _ Hs0 Hr) as [Ha [Hb [Hc' Hd]]]. repeat split; assumption.
-      * intro Hr. destruct (r_rel st HI Hr) as [Hm Hall]. split; [assumption|].
-        intros s0 Hs0. updf_cases; apply Hall; assumption.
+    + apply (rinv_frame st); auto; try (cbn; apply orb_false_r); cbn [set_sess set_sessions sess_of delivered backlog closing cl_of lmark]; try (exact (r_clmark st HI));
+        try (exact (r_deliv st HI)); try (exact (r_bl st HI)); try (exact (r_cl st HI)).
+      * intros s0 Hs0. unfold updf. destruct (Nat.eqb_spec s0 s) as [->|?]; cbn.
+        -- repeat split; auto.
+        -- repeat split; auto. intro Hr. apply (r_unreg st HI _ Hs0 Hr).
       * intros s0 w Hs0. updf_cases; [discriminate|]. apply (r_sel st HI); assumption.
   - (* Accept *)
     cbn [step]. destruct (backlog st) as [|w0 r] eqn:EB; [discriminate|].
-    constructor; cbn [nsess sess_of nwr wr panic lreleased lmark delivered backlog]; try exact Hp;
-      try (exact (r_wsess st HI)); try (exact (r_zero st HI)); try (exact (r_zc st HI));
-      try (exact (r_unreg st HI)); try (exact (r_rel st HI)); try (exact (r_sel st HI)).
-    + intros s0 Hs0. change (open_w _ s0) with (open_w st s0). apply (r_refs st HI); assumption.
+    apply (rinv_frame st); auto; try (cbn; apply orb_false_r); cbn [sess_of delivered backlog closing cl_of lmark]; try (exact (r_clmark st HI));
+      try (exact (r_cl st HI)); try (exact (r_sel st HI)).
+    + intros s0 Hs0. repeat split; auto. intro Hr. apply (r_unreg st HI _ Hs0 Hr).
     + intros w Hw. apply in_app_or in Hw. destruct Hw as [Hw|[<-|[]]]; [apply (r_deliv st HI); assumption|].
       apply (r_bl st HI). rewrite EB. left; reflexivity.
     + intros w Hw. apply (r_bl st HI). rewrite EB. right; assumption.
   - (* AcceptFail *) exact HI.
   - (* WClose *)
-    cbn [step]. destruct (w_closed (wr st w)) eqn:EC; [exact HI|].
-    pose proof (r_deliv st HI w (mem_In _ _ En)) as Hw.
-    pose proof (r_wsess st HI w Hw) as Hs.
-    remember (w_sess (wr st w)) as s eqn:Es.
-    assert (Hflip : S (count (fun k => Nat.eqb (w_sess (updf (wr st) w {| w_sess := s; w_ord := w_ord (wr st w); w_closed := true |} k)) s
-                                   && negb (w_closed (updf (wr st) w {| w_sess := s; w_ord := w_ord (wr st w); w_closed := true |} k))) (nwr st))
-                    = open_w st s).
-    { unfold open_w. apply (count_flip (nwr st) _ _ w Hw).
-      - rewrite <- Es. rewrite Nat.eqb_refl, EC. reflexivity.
-      - unfold updf. rewrite Nat.eqb_refl. cbn. apply andb_false_r.
-      - intros k Hk. unfold updf. destruct (Nat.eqb_spec k w); [congruence|reflexivity]. }
-    assert (Hge : 1 <= refs (sess_of st s)).
-    { rewrite (r_refs st HI s Hs). rewrite <- Hflip. unfold b2z. destruct (in_map _); lia. }
-    constructor; cbn [nsess sess_of nwr wr panic lreleased lmark delivered backlog];
-      try (exact (r_deliv st HI)); try (exact (r_bl st HI)).
-    + rewrite Hp. unfold done_panics. cbn. apply Z.ltb_ge. lia.
-    + intros s0 Hs0. unfold open_w; cbn [nwr wr].
-      destruct (Nat.eq_dec s0 s) as [->|Hne].
-      * rewrite updf_same. cbn [done1 refs in_map]. rewrite (r_refs st HI _ Hs0). rewrite <- Hflip. lia.
-      * rewrite updf_other by assumption. rewrite (r_refs st HI _ Hs0). f_equal. f_equal. unfold open_w. apply count_ext. intros k Hk.
-        unfold updf. destruct (Nat.eqb_spec k w); [|reflexivity]. subst k. cbn.
-        rewrite <- Es. destruct (Nat.eqb_spec s s0); [congruence|]. reflexivity.
-    + intros k Hk. unfold updf. destruct (Nat.eqb_spec k w); cbn; [assumption|]. apply (r_wsess st HI); assumption.
-    + intros s0 Hs0. updf_cases.
-      * intros _ Hz. rewrite Hz. cbn. apply orb_true_r.
-      * apply (r_zero st HI); assumption.
-    + intros s0 Hs0. updf_cases.
-      * intro Hz. apply orb_prop in Hz. destruct Hz as [Hz|Hz].
-        -- rewrite (r_zc st HI _ Hs0 Hz). reflexivity.
-        -- rewrite Hz. apply orb_true_r.
-      * apply (r_zc st HI); assumption.
-    + intros s0 Hs0. updf_cases.
-      * intro Hr. destruct (r_unreg st HI _ Hs0 Hr) as [_ [_ [_ Hz]]]. lia.
-      * apply (r_unreg st HI); assumption.
-    + intro Hr. destruct (r_rel st HI Hr) as [Hm Hall]. split; [assumption|].
-      intros s0 Hs0. updf_cases; apply Hall; assumption.
-    + intros s0 k Hs0. updf_cases; apply (r_sel st HI); assumption.
-  - (* LMark *)
-    constructor; cbn [step nsess sess_of nwr wr panic lreleased lmark delivered backlog]; try exact Hp;
-      try (exact (r_wsess st HI)); try (exact (r_zero st HI)); try (exact (r_zc st HI));
-      try (exact (r_unreg st HI)); try (exact (r_sel st HI)); try (exact (r_deliv st HI)); try (exact (r_bl st HI)).
-    + intros s0 Hs0. change (open_w _ s0) with (open_w st s0). apply (r_refs st HI); assumption.
-    + intro Hr. destruct (r_rel st HI Hr) as [Hm Hall]. split; [reflexivity|assumption].
-  - (* LSignal *)
-    constructor; cbn [step nsess sess_of nwr wr panic lreleased lmark delivered backlog]; try exact Hp;
-      try (exact (r_wsess st HI)); try (exact (r_zero st HI)); try (exact (r_zc st HI));
-      try (exact (r_unreg st HI)); try (exact (r_sel st HI)); try (exact (r_deliv st HI)); try (exact (r_bl st HI));
-      try (exact (r_rel st HI)).
-    intros s0 Hs0. change (open_w _ s0) with (open_w st s0). apply (r_refs st HI); assumption.
-  - (* LRelease *)
-    assert (Hnp : release_panics (nsess st) (sess_of st) = false).
-    { unfold release_panics. destruct (existsb _ _) eqn:EX; [|reflexivity].
-      apply existsb_exists in EX. destruct EX as [k [Hin Hk]]. apply in_seq in Hin.
-      apply andb_prop in Hk. destruct Hk as [Hm Hd]. unfold done_panics in Hd. apply Z.ltb_lt in Hd.
-      assert (Hk : (k < nsess st)%nat) by lia.
-      pose proof (r_refs st HI k Hk) as Hr. rewrite Hm in Hr. unfold b2z in Hr. lia. }
-    constructor; cbn [step nsess sess_of nwr wr panic lreleased lmark delivered backlog];
-      try (exact (r_wsess st HI)); try (exact (r_deliv st HI)); try (exact (r_bl st HI)).
-    + rewrite Hp, Hnp. reflexivity.
-    + intros s0 Hs0. change (open_w _ s0) with (open_w st s0). unfold release1.
-      apply Nat.ltb_lt in Hs0. rewrite Hs0. apply Nat.ltb_lt in Hs0. cbn [andb].
-      destruct (in_map (sess_of st s0)) eqn:EM; cbn.
-      * rewrite (r_refs st HI _ Hs0), EM. unfold b2z. lia.
-      * rewrite (r_refs st HI _ Hs0), EM. reflexivity.
-    + intros s0 Hs0. unfold release1. apply Nat.ltb_lt in Hs0. rewrite Hs0. apply Nat.ltb_lt in Hs0. cbn [andb].
-      destruct (in_map (sess_of st s0)) eqn:EM; cbn.
-      * intros _ Hz. rewrite Hz. cbn. apply orb_true_r.
-      * apply (r_zero st HI); assumption.
-    + intros s0 Hs0. unfold release1. apply Nat.ltb_lt in Hs0. rewrite Hs0. apply Nat.ltb_lt in Hs0. cbn [andb].
-      destruct (in_map (sess_of st s0)) eqn:EM; cbn.
-      * intro Hz. apply orb_prop in Hz. destruct Hz as [Hz|Hz].
-        -- rewrite (r_zc st HI _ Hs0 Hz). reflexivity.
-        -- rewrite Hz. apply orb_true_r.
-      * apply (r_zc st HI); assumption.
-    + intros s0 Hs0. unfold release1. apply Nat.ltb_lt in Hs0. rewrite Hs0. apply Nat.ltb_lt in Hs0. cbn [andb].
-      destruct (in_map (sess_of st s0)) eqn:EM; cbn.
-      * intro Hr. destruct (r_unreg st HI _ Hs0 Hr) as [_ [Hm _]]. congruence.
-      * intro Hr. apply (r_unreg st HI _ Hs0 Hr).
-    + intros _. split; [assumption|]. intros s0 Hs0. unfold release1.
-      apply Nat.ltb_lt in Hs0. rewrite Hs0. cbn [andb]. destruct (in_map (sess_of st s0)) eqn:EM; cbn; [reflexivity|assumption].
-    + intros s0 k Hs0. unfold release1. apply Nat.ltb_lt in Hs0. rewrite Hs0. apply Nat.ltb_lt in Hs0. cbn [andb].
-      destruct (in_map (sess_of st s0)) eqn:EM; cbn; apply (r_sel st HI); assumption.
+    cbn [step]. apply rinv_close_wrapper; [assumption|]. apply (r_deliv st HI). apply mem_In. assumption.
+  - (* CloseTaken *)
+    cbn [step]. pose proof (r_cl st HI w (mem_In _ _ En)) as Hw.
+    pose proof (rinv_close_wrapper st w HI Hw) as HI1.
+    apply (rinv_frame (close_wrapper st w)); auto; cbn [sess_of delivered backlog closing cl_of lmark]; try (exact (r_clmark st HI));
+      try (exact (r_deliv _ HI1)); try (exact (r_bl _ HI1)); try (exact (r_sel _ HI1)); try (exact (r_clmark _ HI1)).
+    + intros s0 Hs0. repeat split; auto. intro Hr. apply (r_unreg _ HI1 _ Hs0 Hr).
+    + intros x Hx. apply in_remove_w in Hx. destruct Hx as [Hx _]. apply (r_cl _ HI1). assumption.
+  - (* LCall *)
+    apply (rinv_frame st); auto; try (cbn; apply orb_false_r); cbn [step sess_of delivered backlog closing cl_of lmark]; try (exact (r_clmark st HI));
+      try (exact (r_deliv st HI)); try (exact (r_bl st HI)); try (exact (r_cl st HI)); try (exact (r_sel st HI)); try (clmark st HI).
+    intros s0 Hs0. repeat split; auto. intro Hr. apply (r_unreg st HI _ Hs0 Hr).
+  - (* LStep *)
+    cbn [step]. destruct (cl_of st k) eqn:EK.
+    + (* CStart *)
+      destruct (lmark st) eqn:ELM.
+      * apply (rinv_frame st); auto; try (cbn; apply orb_false_r); cbn [set_cl sess_of delivered backlog closing cl_of lmark]; try (exact (r_clmark st HI));
+          try (exact (r_deliv st HI)); try (exact (r_bl st HI)); try (exact (r_cl st HI)); try (exact (r_sel st HI)); try (clmark st HI).
+        intros s0 Hs0. repeat split; auto. intro Hr. apply (r_unreg st HI _ Hs0 Hr).
+      * apply (rinv_frame st); auto; try (cbn; apply orb_false_r); cbn [sess_of delivered backlog closing cl_of lmark]; try (exact (r_clmark st HI));
+          try (exact (r_deliv st HI)); try (exact (r_bl st HI)); try (exact (r_cl st HI)); try (exact (r_sel st HI)); try (clmark st HI).
+        intros s0 Hs0. repeat split; auto. intro Hr. apply (r_unreg st HI _ Hs0 Hr).
+    + (* CSig *)
+      apply (rinv_frame st); auto; try (cbn; apply orb_false_r); cbn [sess_of delivered backlog closing cl_of lmark]; try (exact (r_clmark st HI));
+        try (exact (r_deliv st HI)); try (exact (r_bl st HI)); try (exact (r_cl st HI)); try (exact (r_sel st HI)); try (clmark st HI).
+      intros s0 Hs0. repeat split; auto. intro Hr. apply (r_unreg st HI _ Hs0 Hr).
+    + (* CDrain *)
+      destruct (backlog st) as [|w0 r] eqn:EB.
+      * apply (rinv_frame st); auto; try (cbn; apply orb_false_r); cbn [set_cl sess_of delivered backlog closing cl_of lmark]; try (exact (r_clmark st HI));
+          try (exact (r_deliv st HI)); try (exact (r_cl st HI)); try (exact (r_sel st HI)); try (rewrite EB; intros w []); try (clmark st HI).
+        intros s0 Hs0. repeat split; auto. intro Hr. apply (r_unreg st HI _ Hs0 Hr).
+      * unfold take_head. rewrite EB.
+        apply (rinv_frame st); auto; try (cbn; apply orb_false_r); cbn [sess_of delivered backlog closing cl_of lmark]; try (exact (r_clmark st HI));
+          try (exact (r_deliv st HI)); try (exact (r_sel st HI)); try (clmark st HI).
+        -- intros s0 Hs0. repeat split; auto. intro Hr. apply (r_unreg st HI _ Hs0 Hr).
+        -- intros w Hw. apply (r_bl st HI). rewrite EB. right; assumption.
+        -- intros w Hw. apply in_app_or in Hw. destruct Hw as [Hw|[<-|[]]]; [apply (r_cl st HI); assumption|].
+           apply (r_bl st HI). rewrite EB. left; reflexivity.
+    + (* CRel *)
+      assert (Hnp : release_panics (nsess st) (sess_of st) = false).
+      { unfold release_panics. destruct (existsb _ _) eqn:EX; [|reflexivity].
+        apply existsb_exists in EX. destruct EX as [j [Hin Hj]]. apply in_seq in Hin.
+        apply andb_prop in Hj. destruct Hj as [Hm Hd]. unfold done_panics in Hd. apply Z.ltb_lt in Hd.
+        assert (Hj : (j < nsess st)%nat) by lia.
+        pose proof (r_refs st HI j Hj) as Hr. rewrite Hm in Hr. unfold b2z in Hr. lia. }
+      constructor; cbn [nsess sess_of nwr wr panic lreleased lmark delivered backlog closing cl_of lmark];
+        try (exact (r_wsess st HI)); try (exact (r_deliv st HI)); try (exact (r_bl st HI)); try (exact (r_cl st HI)); try (clmark st HI).
+      * rewrite Hp, Hnp. reflexivity.
+      * intros s0 Hs0. change (open_w _ s0) with (open_w st s0). unfold release1.
+        apply Nat.ltb_lt in Hs0. rewrite Hs0. apply Nat.ltb_lt in Hs0. cbn [andb].
+        destruct (in_map (sess_of st s0)) eqn:EM; cbn.
+        -- rewrite (r_refs st HI _ Hs0), EM. unfold b2z. lia.
+        -- rewrite (r_refs st HI _ Hs0), EM. reflexivity.
+      * intros s0 Hs0. unfold release1. apply Nat.ltb_lt in Hs0. rewrite Hs0. apply Nat.ltb_lt in Hs0. cbn [andb].
+        destruct (in_map (sess_of st s0)) eqn:EM; cbn.
+        -- intros _ Hz. rewrite Hz. cbn. apply orb_true_r.
+        -- apply (r_zero st HI); assumption.
+      * intros s0 Hs0. unfold release1. apply Nat.ltb_lt in Hs0. rewrite Hs0. apply Nat.ltb_lt in Hs0. cbn [andb].
+        destruct (in_map (sess_of st s0)) eqn:EM; cbn.
+        -- intro Hz. apply orb_prop in Hz. destruct Hz as [Hz|Hz].
+           ++ rewrite (r_zc st HI _ Hs0 Hz). reflexivity.
+           ++ rewrite Hz. apply orb_true_r.
+        -- apply (r_zc st HI); assumption.
+      * intros s0 Hs0. unfold release1. apply Nat.ltb_lt in Hs0. rewrite Hs0. apply Nat.ltb_lt in Hs0. cbn [andb].
+        destruct (in_map (sess_of st s0)) eqn:EM; cbn.
+        -- intro Hr. destruct (r_unreg st HI _ Hs0 Hr) as [_ [Hm _]]. congruence.
+        -- intro Hr. apply (r_unreg st HI _ Hs0 Hr).
+      * intros _. split.
+        -- (* a Close call at its release section has passed the CAS: l.closed = 1 *)
+           apply (r_clmark st HI k). rewrite EK. reflexivity.
+        -- intros s0 Hs0. unfold release1.
+           apply Nat.ltb_lt in Hs0. rewrite Hs0. cbn [andb]. destruct (in_map (sess_of st s0)) eqn:EM; cbn; [reflexivity|assumption].
+      * intros s0 j Hs0. unfold release1. apply Nat.ltb_lt in Hs0. rewrite Hs0. apply Nat.ltb_lt in Hs0. cbn [andb].
+        destruct (in_map (sess_of st s0)) eqn:EM; cbn; apply (r_sel st HI); assumption.
+    + discriminate.
 Qed.
 
 Lemma run_app : forall a b st, run (a ++ b) st = run b (run a st).
@@ -330,38 +436,151 @@ Proof.
 Qed.
 
 (* ---------------------------------------------------------------------------------------- *)
-(* exactly-once delivery                                                                      *)
+(* exactly-once delivery: every wrapper is in exactly one place                               *)
 (* ---------------------------------------------------------------------------------------- *)
+Fixpoint cnt (l : list nat) (x : nat) : nat :=
+  match l with [] => O | y :: r => ((if Nat.eqb y x then 1 else 0) + cnt r x)%nat end.
+
+Lemma cnt_app : forall a b x, cnt (a ++ b) x = (cnt a x + cnt b x)%nat.
+Proof. induction a as [|y a IH]; intros b x; cbn; [reflexivity|]. rewrite IH. lia. Qed.
+
+Lemma cnt_pos_In : forall l x, (0 < cnt l x)%nat <-> In x l.
+Proof.
+  induction l as [|y l IH]; intros x; cbn; [split; [lia|tauto]|].
+  destruct (Nat.eqb_spec y x) as [->|Hne]; split; intro H.
+  - left; reflexivity.
+  - lia.
+  - right. apply IH. lia.
+  - destruct H as [H|H]; [congruence|]. apply IH in H. lia.
+Qed.
+
+Lemma cnt_remove : forall w l x, cnt (remove_w w l) x = if Nat.eqb x w then O else cnt l x.
+Proof.
+  intros w. induction l as [|y l IH]; intros x; cbn; [destruct (Nat.eqb x w); reflexivity|].
+  destruct (Nat.eqb_spec y w) as [->|Hne]; cbn.
+  - rewrite IH. destruct (Nat.eqb_spec x w) as [->|Hx]; [reflexivity|].
+    destruct (Nat.eqb_spec w x); [congruence|]. reflexivity.
+  - rewrite IH. destruct (Nat.eqb_spec x w) as [->|Hx]; [|reflexivity].
+    destruct (Nat.eqb_spec y w); [congruence|]. reflexivity.
+Qed.
+
+Lemma NoDup_of_cnt : forall l, (forall x, (cnt l x <= 1)%nat) -> NoDup l.
+Proof.
+  induction l as [|y l IH]; intros H; constructor.
+  - intro Hin. apply cnt_pos_In in Hin. specialize (H y). cbn in H. rewrite Nat.eqb_refl in H. lia.
+  - apply IH. intro x. specialize (H x). cbn in H. lia.
+Qed.
+
+Definition places (st : state) : list nat := delivered st ++ backlog st ++ closing st ++ aclosed st.
+Definition occ (st : state) (w : nat) : nat := cnt (places st) w.
 Definition of_sess (st : state) (s : nat) : nat := count (fun w => Nat.eqb (w_sess (wr st w)) s) (nwr st).
 Local Arguments of_sess : simpl never.
 
 Record OInv (st : state) : Prop := {
-  o_log : delivered st ++ backlog st = enq_log st;
-  o_nd1 : NoDup (enq_log st);
-  o_nd2 : NoDup (lost st);
-  o_disj : forall w, In w (enq_log st) -> ~ In w (lost st);
-  o_lt : forall w, In w (enq_log st) \/ In w (lost st) -> (w < nwr st)%nat;
+  o_log : recv_log st ++ backlog st = enq_log st;
+  o_occ : forall w, (occ st w <= 1)%nat;
+  o_lt : forall w, (0 < occ st w)%nat -> (w < nwr st)%nat;
   o_sel : forall s w, (s < nsess st)%nat -> loop (sess_of st s) = LSelecting w ->
-          (w < nwr st)%nat /\ w_sess (wr st w) = s /\ ~ In w (enq_log st) /\ ~ In w (lost st);
+          (w < nwr st)%nat /\ w_sess (wr st w) = s /\ occ st w = O;
+  o_cov : forall w, (w < nwr st)%nat -> occ st w = 1%nat \/ loop (sess_of st (w_sess (wr st w))) = LSelecting w;
   o_cap : (length (backlog st) <= cap st)%nat;
   o_arr : forall s, (s < nsess st)%nat ->
           arrived (sess_of st s) = (inq (sess_of st s) + wrapped (sess_of st s))%nat;
   o_wc : forall s, (s < nsess st)%nat -> wrapped (sess_of st s) = of_sess st s;
-  o_ws : forall w, (w < nwr st)%nat -> (w_sess (wr st w) < nsess st)%nat }.
+  o_ws : forall w, (w < nwr st)%nat -> (w_sess (wr st w) < nsess st)%nat;
+  o_acl : forall w, In w (aclosed st) -> w_closed (wr st w) = true }.
 
 Lemma oinv_init : forall c, OInv (init c).
 Proof.
-  intro c. constructor; cbn; try (intros; lia); try reflexivity; try constructor;
-    try (intros w H; contradiction); try (intros w [H|H]; contradiction).
+  intro c. constructor; cbn; try (intros; lia); try reflexivity; try (intros w H; contradiction).
 Qed.
 
-Lemma NoDup_snoc : forall (l : list nat) w, NoDup l -> ~ In w l -> NoDup (l ++ [w]).
+Lemma of_sess_ext : forall st st' s, nwr st' = nwr st -> (forall w, w_sess (wr st' w) = w_sess (wr st w)) -> of_sess st' s = of_sess st s.
 Proof.
-  induction l as [|a l IH]; intros w Hnd Hni; cbn.
-  - constructor; [intros []|constructor].
-  - inversion Hnd; subst. constructor.
-    + intro Hin. apply in_app_or in Hin. destruct Hin as [Hin|[<-|[]]]; [contradiction|]. apply Hni. left; reflexivity.
-    + apply IH; [assumption|]. intro Hin. apply Hni. right; assumption.
+  intros st st' s Hn Hw. unfold of_sess. rewrite Hn. apply count_ext. intros w _. rewrite Hw. reflexivity.
+Qed.
+
+(* steps that move no wrapper into or out of a select and keep every wrapper's multiplicity *)
+Lemma oinv_frame : forall st st',
+  OInv st ->
+  nsess st' = nsess st -> nwr st' = nwr st ->
+  (forall w, w_sess (wr st' w) = w_sess (wr st w)) ->
+  (forall w, w_closed (wr st w) = true -> w_closed (wr st' w) = true) ->
+  (forall w, occ st' w = occ st w) ->
+  recv_log st' ++ backlog st' = enq_log st' ->
+  (length (backlog st') <= cap st')%nat ->
+  (forall s, (s < nsess st)%nat ->
+     inq (sess_of st' s) = inq (sess_of st s) /\ arrived (sess_of st' s) = arrived (sess_of st s) /\
+     wrapped (sess_of st' s) = wrapped (sess_of st s)) ->
+  (forall s w, (s < nsess st)%nat -> (loop (sess_of st' s) = LSelecting w <-> loop (sess_of st s) = LSelecting w)) ->
+  (forall w, In w (aclosed st') -> In w (aclosed st) \/ w_closed (wr st' w) = true) ->
+  OInv st'.
+Proof.
+  intros st st' HI Hns Hnw Hws Hwc Hocc Hlog Hcap Hs Hsel Hacl.
+  constructor.
+  - exact Hlog.
+  - intro w. rewrite Hocc. apply (o_occ st HI).
+  - intro w. rewrite Hocc, Hnw. apply (o_lt st HI).
+  - intros s w Hlt E. rewrite Hns in Hlt. apply (Hsel s w Hlt) in E.
+    destruct (o_sel st HI s w Hlt E) as [A [B C]]. rewrite Hnw, Hws, Hocc. auto.
+  - intros w Hw. rewrite Hnw in Hw. rewrite Hocc, Hws. destruct (o_cov st HI w Hw) as [A|A]; [left; assumption|right].
+    apply Hsel; [apply (o_ws st HI); assumption|assumption].
+  - exact Hcap.
+  - intros s Hlt. rewrite Hns in Hlt. destruct (Hs s Hlt) as [A [B C]]. rewrite A, B, C. apply (o_arr st HI); assumption.
+  - intros s Hlt. rewrite Hns in Hlt. destruct (Hs s Hlt) as [_ [_ C]]. rewrite C.
+    rewrite (of_sess_ext st st' s Hnw Hws). apply (o_wc st HI); assumption.
+  - intros w Hw. rewrite Hnw in Hw. rewrite Hws, Hns. apply (o_ws st HI); assumption.
+  - intros w Hw. destruct (Hacl w Hw) as [A|A]; [|assumption]. apply Hwc. apply (o_acl st HI). assumption.
+Qed.
+
+Ltac occ_norm := unfold occ, places; cbn [delivered backlog closing aclosed]; rewrite ?cnt_app; cbn [cnt].
+
+Lemma occ_take_head : forall st w0 r, backlog st = w0 :: r -> forall w, occ (take_head st) w = occ st w.
+Proof.
+  intros st w0 r EB w. unfold take_head. rewrite EB. occ_norm. rewrite EB. cbn [cnt]. lia.
+Qed.
+
+Lemma oinv_take_head : forall st, OInv st -> OInv (take_head st).
+Proof.
+  intros st HI. destruct (backlog st) as [|w0 r] eqn:EB; [unfold take_head; rewrite EB; exact HI|].
+  apply (oinv_frame st); auto.
+  - unfold take_head; rewrite EB; reflexivity.
+  - unfold take_head; rewrite EB; reflexivity.
+  - unfold take_head; rewrite EB; reflexivity.
+  - unfold take_head; rewrite EB; auto.
+  - apply (occ_take_head st w0 r EB).
+  - unfold take_head; rewrite EB; cbn. rewrite <- app_assoc. cbn. rewrite <- (o_log st HI), EB. reflexivity.
+  - unfold take_head; rewrite EB; cbn. pose proof (o_cap st HI) as Hc. rewrite EB in Hc. cbn in Hc. lia.
+  - unfold take_head; rewrite EB; cbn. intros; auto.
+  - unfold take_head; rewrite EB; cbn. intros; tauto.
+  - unfold take_head; rewrite EB; cbn. intros; auto.
+Qed.
+
+Ltac oframe st HI :=
+  apply (oinv_frame st); auto;
+  cbn [step set_sess set_sessions set_cl sess_of backlog recv_log enq_log cap aclosed wr nsess nwr];
+  try (apply (o_log st HI)); try (apply (o_cap st HI));
+  try (solve [intros; auto]); try (solve [intros; tauto]).
+
+(* only the program counter of one accept goroutine changes, and not from or to a select *)
+Lemma oinv_set_loop : forall st s p,
+  OInv st -> is_selecting (loop (sess_of st s)) = false -> is_selecting p = false ->
+  OInv (set_sess st s (with_loop (sess_of st s) p) false).
+Proof.
+  intros st s p HI H1 H2. oframe st HI.
+  - intros s0 Hs0. unfold updf. destruct (Nat.eqb_spec s0 s) as [->|?]; cbn; auto.
+  - intros s0 w Hs0. unfold updf. destruct (Nat.eqb_spec s0 s) as [->|?]; cbn; [|tauto].
+    split; intro E; [rewrite E in H2|rewrite E in H1]; discriminate.
+Qed.
+
+Lemma oinv_close_wrapper : forall st w, OInv st -> OInv (close_wrapper st w).
+Proof.
+  intros st w HI. unfold close_wrapper. destruct (w_closed (wr st w)) eqn:EC; [exact HI|].
+  oframe st HI.
+  - intro k. unfold updf. destruct (Nat.eqb_spec k w); subst; reflexivity.
+  - intros k Hk. unfold updf. destruct (Nat.eqb_spec k w); subst; [reflexivity|assumption].
+  - intros s0 Hs0. unfold updf. destruct (Nat.eqb_spec s0 (w_sess (wr st w))) as [->|?]; cbn; auto.
+  - intros s0 k Hs0. unfold updf. destruct (Nat.eqb_spec s0 (w_sess (wr st w))) as [->|?]; cbn; tauto.
 Qed.
 
 Lemma oinv_step : forall st e, OInv st -> OInv (exec st e).
@@ -369,12 +588,13 @@ Proof.
   intros st e HI. unfold exec. destruct (enabled st e) eqn:En; [|exact HI].
   destruct e; cbn [enabled] in En; bool_hyps.
   - (* SessionUp *)
-    constructor; cbn [step nsess sess_of nwr wr delivered backlog enq_log lost cap];
-      try (exact (o_log st HI)); try (exact (o_nd1 st HI)); try (exact (o_nd2 st HI));
-      try (exact (o_disj st HI)); try (exact (o_lt st HI)); try (exact (o_cap st HI)).
+    constructor; cbn [step nsess sess_of nwr wr delivered backlog closing aclosed enq_log recv_log cap];
+      try (exact (o_log st HI)); try (exact (o_occ st HI)); try (exact (o_lt st HI)); try (exact (o_cap st HI)); try (exact (o_acl st HI)).
     + intros s w Hs. updf_cases.
       * destruct (lmark st); cbn; discriminate.
       * apply (o_sel st HI); lia.
+    + intros w Hw. change (occ _ w) with (occ st w). destruct (o_cov st HI w Hw) as [A|A]; [left; assumption|right].
+      rewrite updf_other; [assumption|]. pose proof (o_ws st HI w Hw). lia.
     + intros s Hs. updf_cases.
       * destruct (lmark st); reflexivity.
       * apply (o_arr st HI); lia.
@@ -386,24 +606,30 @@ Proof.
       * apply (o_wc st HI); lia.
     + intros w Hw. pose proof (o_ws st HI w Hw). lia.
   - (* StreamIn *)
-    constructor; cbn [step set_sess nsess sess_of nwr wr delivered backlog enq_log lost cap];
-      try (exact (o_log st HI)); try (exact (o_nd1 st HI)); try (exact (o_nd2 st HI));
-      try (exact (o_disj st HI)); try (exact (o_lt st HI)); try (exact (o_cap st HI)); try (exact (o_ws st HI)).
+    constructor; cbn [step set_sess set_sessions nsess sess_of nwr wr delivered backlog closing aclosed enq_log recv_log cap];
+      try (exact (o_log st HI)); try (exact (o_occ st HI)); try (exact (o_lt st HI)); try (exact (o_cap st HI));
+      try (exact (o_acl st HI)); try (exact (o_ws st HI)).
     + intros s0 w Hs. updf_cases; apply (o_sel st HI); assumption.
+    + intros w Hw. change (occ _ w) with (occ st w). destruct (o_cov st HI w Hw) as [A|A]; [left; assumption|right].
+      updf_cases; assumption.
     + intros s0 Hs. updf_cases; [|apply (o_arr st HI); assumption].
       rewrite (o_arr st HI _ Hs). lia.
     + intros s0 Hs. change (of_sess _ s0) with (of_sess st s0). updf_cases; apply (o_wc st HI); assumption.
   - (* Wrap *)
-    rename H into Hs.
-    constructor; cbn [step nsess sess_of nwr wr delivered backlog enq_log lost cap];
-      try (exact (o_log st HI)); try (exact (o_nd1 st HI)); try (exact (o_nd2 st HI));
-      try (exact (o_disj st HI)); try (exact (o_cap st HI)).
-    + intros w Hw. pose proof (o_lt st HI w Hw). lia.
-    + intros s0 w Hs0. unfold updf at 1. destruct (Nat.eqb_spec s0 s) as [->|Hne]; cbn [loop].
+    rename H into Hs. destruct (loop (sess_of st s)) eqn:EL; try discriminate.
+    constructor; cbn [step nsess sess_of nwr wr delivered backlog closing aclosed enq_log recv_log cap];
+      try (exact (o_log st HI)); try (exact (o_occ st HI)); try (exact (o_cap st HI)).
+    + intros w Hw. change (occ _ w) with (occ st w) in Hw. pose proof (o_lt st HI w Hw). lia.
+    + intros s0 w Hs0. change (occ _ w) with (occ st w). unfold updf at 1. destruct (Nat.eqb_spec s0 s) as [->|Hne]; cbn [loop].
       * intro E. inversion E; subst w. rewrite updf_same. cbn. split; [lia|]. split; [reflexivity|].
-        split; intro Hin; [pose proof (o_lt st HI _ (or_introl Hin))|pose proof (o_lt st HI _ (or_intror Hin))]; lia.
-      * intro E. destruct (o_sel st HI s0 w Hs0 E) as [Hlt [Hws [Hn1 Hn2]]].
+        destruct (occ st (nwr st)) eqn:EO; [reflexivity|]. pose proof (o_lt st HI (nwr st)). lia.
+      * intro E. destruct (o_sel st HI s0 w Hs0 E) as [Hlt [Hws Ho]].
         rewrite updf_other by lia. repeat split; try assumption; lia.
+    + intros w Hw. change (occ _ w) with (occ st w). destruct (Nat.eq_dec w (nwr st)) as [->|Hne].
+      * right. rewrite updf_same. cbn [w_sess]. rewrite updf_same. reflexivity.
+      * assert (Hw' : (w < nwr st)%nat) by lia. rewrite (updf_other _ (wr st) (nwr st) _ w Hne).
+        destruct (o_cov st HI w Hw') as [A|A]; [left; assumption|right].
+        rewrite updf_other; [assumption|]. intro E. rewrite E, EL in A. discriminate.
     + intros s0 Hs0. updf_cases; [|apply (o_arr st HI); assumption].
       rewrite (o_arr st HI _ Hs0). lia.
     + intros s0 Hs0. unfold of_sess; cbn [nwr wr count]. rewrite updf_same. cbn [w_sess].
@@ -414,102 +640,110 @@ Proof.
       * rewrite Nat.eqb_refl. rewrite (o_wc st HI _ Hs0). reflexivity.
       * destruct (Nat.eqb_spec s s0); [congruence|]. rewrite (o_wc st HI _ Hs0). reflexivity.
     + intros w Hw. unfold updf. destruct (Nat.eqb_spec w (nwr st)); cbn; [assumption|]. apply (o_ws st HI); lia.
+    + intros w Hw. rewrite updf_other; [apply (o_acl st HI); assumption|].
+      assert (Hp : (0 < occ st w)%nat).
+      { unfold occ, places. rewrite !cnt_app. apply cnt_pos_In in Hw. lia. }
+      pose proof (o_lt st HI w Hp). lia.
   - (* Enqueue *)
-    rename H into Hs. cbn [step]. destruct (loop (sess_of st s)) as [|w0|] eqn:EL; try discriminate.
-    destruct (o_sel st HI s w0 Hs EL) as [Hlt [Hws [Hn1 Hn2]]].
-    constructor; cbn [nsess sess_of nwr wr delivered backlog enq_log lost cap];
-      try (exact (o_nd2 st HI)); try (exact (o_ws st HI)).
-    + rewrite app_assoc. rewrite (o_log st HI). reflexivity.
-    + apply NoDup_snoc; [exact (o_nd1 st HI)|assumption].
-    + intros w Hw. apply in_app_or in Hw. destruct Hw as [Hw|[<-|[]]]; [apply (o_disj st HI); assumption|assumption].
-    + intros w [Hw|Hw]; [|apply (o_lt st HI); right; assumption].
-      apply in_app_or in Hw. destruct Hw as [Hw|[<-|[]]]; [apply (o_lt st HI); left; assumption|assumption].
-    + intros s0 w Hs0. unfold updf. destruct (Nat.eqb_spec s0 s) as [->|Hne]; cbn [with_loop loop]; [discriminate|].
-      intro E. destruct (o_sel st HI s0 w Hs0 E) as [Hlt' [Hws' [Hn1' Hn2']]].
-      repeat split; try assumption. intro Hin. apply in_app_or in Hin. destruct Hin as [Hin|[<-|[]]]; [contradiction|].
-      congruence.
+    rename H into Hs. cbn [step]. destruct (loop (sess_of st s)) as [|w0| | |] eqn:EL; try discriminate.
+    destruct (o_sel st HI s w0 Hs EL) as [Hlt [Hws Ho]].
+    assert (Hocc : forall x, occ {| nsess := nsess st; sess_of := updf (sess_of st) s (with_loop (sess_of st s) LPostEnq);
+         nwr := nwr st; wr := wr st; ncl := ncl st; cl_of := cl_of st; cap := cap st;
+         backlog := backlog st ++ [w0]; delivered := delivered st; closing := closing st; aclosed := aclosed st;
+         enq_log := enq_log st ++ [w0]; recv_log := recv_log st;
+         lmark := lmark st; closeCh := closeCh st; lreleased := lreleased st; panic := panic st |} x
+         = (occ st x + (if Nat.eqb w0 x then 1 else 0))%nat).
+    { intro x. occ_norm. lia. }
+    constructor; try (intro x; rewrite Hocc); cbn [nsess sess_of nwr wr delivered backlog closing aclosed enq_log recv_log cap];
+      try (exact (o_ws st HI)); try (exact (o_acl st HI)).
+    + rewrite app_assoc, (o_log st HI). reflexivity.
+    + destruct (Nat.eqb_spec w0 x) as [->|?]; [lia|]. pose proof (o_occ st HI x). lia.
+    + destruct (Nat.eqb_spec w0 x) as [->|?]; [intros; assumption|]. intro Hp. apply (o_lt st HI). lia.
+    + intros s0 w Hs0. rewrite Hocc. unfold updf. destruct (Nat.eqb_spec s0 s) as [->|Hne]; cbn [with_loop loop]; [discriminate|].
+      intro E. destruct (o_sel st HI s0 w Hs0 E) as [A [B C]]. repeat split; try assumption.
+      destruct (Nat.eqb_spec w0 w) as [->|?]; [congruence|lia].
+    + intros Hw. destruct (Nat.eqb_spec w0 x) as [->|Hne]; [left; lia|].
+      destruct (o_cov st HI x Hw) as [A|A]; [left; lia|right].
+      rewrite updf_other; [assumption|]. intro E. rewrite E, EL in A. inversion A. congruence.
     + rewrite app_length. cbn. lia.
     + intros s0 Hs0. updf_cases; apply (o_arr st HI); assumption.
     + intros s0 Hs0. change (of_sess _ s0) with (of_sess st s0). updf_cases; apply (o_wc st HI); assumption.
   - (* Lose *)
-    rename H into Hs. cbn [step]. destruct (loop (sess_of st s)) as [|w0|] eqn:EL; try discriminate.
-    destruct (o_sel st HI s w0 Hs EL) as [Hlt [Hws [Hn1 Hn2]]].
-    constructor; cbn [nsess sess_of nwr wr delivered backlog enq_log lost cap];
-      try (exact (o_log st HI)); try (exact (o_nd1 st HI)); try (exact (o_cap st HI)); try (exact (o_ws st HI)).
-    + apply NoDup_snoc; [exact (o_nd2 st HI)|assumption].
-    + intros w Hw Hin. apply in_app_or in Hin. destruct Hin as [Hin|[<-|[]]]; [apply (o_disj st HI w); assumption|contradiction].
-    + intros w [Hw|Hw]; [apply (o_lt st HI); left; assumption|].
-      apply in_app_or in Hw. destruct Hw as [Hw|[<-|[]]]; [apply (o_lt st HI); right; assumption|assumption].
-    + intros s0 w Hs0. unfold updf. destruct (Nat.eqb_spec s0 s) as [->|Hne]; cbn [with_loop loop]; [discriminate|].
-      intro E. destruct (o_sel st HI s0 w Hs0 E) as [Hlt' [Hws' [Hn1' Hn2']]].
-      repeat split; try assumption. intro Hin. apply in_app_or in Hin. destruct Hin as [Hin|[<-|[]]]; [contradiction|].
-      congruence.
+    rename H into Hs. cbn [step]. destruct (loop (sess_of st s)) as [|w0| | |] eqn:EL; try discriminate.
+    destruct (o_sel st HI s w0 Hs EL) as [Hlt [Hws Ho]].
+    assert (Hocc : forall x, occ {| nsess := nsess st; sess_of := updf (sess_of st) s (with_loop (sess_of st s) LExited);
+         nwr := nwr st; wr := wr st; ncl := ncl st; cl_of := cl_of st; cap := cap st;
+         backlog := backlog st; delivered := delivered st; closing := closing st ++ [w0]; aclosed := aclosed st;
+         enq_log := enq_log st; recv_log := recv_log st;
+         lmark := lmark st; closeCh := closeCh st; lreleased := lreleased st; panic := panic st |} x
+         = (occ st x + (if Nat.eqb w0 x then 1 else 0))%nat).
+    { intro x. occ_norm. lia. }
+    constructor; try (intro x; rewrite Hocc); cbn [nsess sess_of nwr wr delivered backlog closing aclosed enq_log recv_log cap];
+      try (exact (o_ws st HI)); try (exact (o_acl st HI)); try (exact (o_log st HI)); try (exact (o_cap st HI)).
+    + destruct (Nat.eqb_spec w0 x) as [->|?]; [lia|]. pose proof (o_occ st HI x). lia.
+    + destruct (Nat.eqb_spec w0 x) as [->|?]; [intros; assumption|]. intro Hp. apply (o_lt st HI). lia.
+    + intros s0 w Hs0. rewrite Hocc. unfold updf. destruct (Nat.eqb_spec s0 s) as [->|Hne]; cbn [with_loop loop]; [discriminate|].
+      intro E. destruct (o_sel st HI s0 w Hs0 E) as [A [B C]]. repeat split; try assumption.
+      destruct (Nat.eqb_spec w0 w) as [->|?]; [congruence|lia].
+    + intros Hw. destruct (Nat.eqb_spec w0 x) as [->|Hne]; [left; lia|].
+      destruct (o_cov st HI x Hw) as [A|A]; [left; lia|right].
+      rewrite updf_other; [assumption|]. intro E. rewrite E, EL in A. inversion A. congruence.
     + intros s0 Hs0. updf_cases; apply (o_arr st HI); assumption.
     + intros s0 Hs0. change (of_sess _ s0) with (of_sess st s0). updf_cases; apply (o_wc st HI); assumption.
+  - (* PostCheck *)
+    cbn [step]. destruct (loop (sess_of st s)) eqn:EL; try discriminate.
+    apply oinv_set_loop; [assumption|rewrite EL; reflexivity|destruct (closeCh st); reflexivity].
+  - (* GDrain *)
+    cbn [step]. destruct (loop (sess_of st s)) eqn:EL; try discriminate.
+    destruct (backlog st) eqn:EB.
+    + apply oinv_set_loop; [assumption|rewrite EL; reflexivity|reflexivity].
+    + apply oinv_take_head. assumption.
   - (* SessionDie *)
-    constructor; cbn [step set_sess nsess sess_of nwr wr delivered backlog enq_log lost cap];
-      try (exact (o_log st HI)); try (exact (o_nd1 st HI)); try (exact (o_nd2 st HI));
-      try (exact (o_disj st HI)); try (exact (o_lt st HI)); try (exact (o_cap st HI)); try (exact (o_ws st HI)).
-    + intros s0 w Hs. updf_cases; apply (o_sel st HI); assumption.
-    + intros s0 Hs. updf_cases; apply (o_arr st HI); assumption.
-    + intros s0 Hs. change (of_sess _ s0) with (of_sess st s0). updf_cases; apply (o_wc st HI); assumption.
+    oframe st HI.
+    + intros s0 Hs0. unfold updf. destruct (Nat.eqb_spec s0 s) as [->|?]; cbn; auto.
+    + intros s0 w Hs0. unfold updf. destruct (Nat.eqb_spec s0 s) as [->|?]; cbn; tauto.
   - (* AcceptErr *)
-    rename H into Hs. cbn [step].
-    destruct (loop (sess_of st s)) as [| |] eqn:EL; try discriminate.
-    destruct (in_map (sess_of st s)) eqn:EM;
-      (constructor; cbn [set_sess nsess sess_of nwr wr delivered backlog enq_log lost cap];
-       try (exact (o_log st HI)); try (exact (o_nd1 st HI)); try (exact (o_nd2 st HI));
-       try (exact (o_disj st HI)); try (exact (o_lt st HI)); try (exact (o_cap st HI)); try (exact (o_ws st HI));
-       [ intros s0 w Hs0; unfold updf; destruct (Nat.eqb_spec s0 s) as [->|Hne]; cbn; [discriminate|apply (o_sel st HI); assumption]
-       | intros s0 Hs0; updf_cases; apply (o_arr st HI); assumption
-       | intros s0 Hs0; change (of_sess _ s0) with (of_sess st s0); updf_cases; apply (o_wc st HI); assumption ]).
+    rename H into Hs. cbn [step]. destruct (loop (sess_of st s)) eqn:EL; try discriminate.
+    destruct (in_map (sess_of st s)) eqn:EM.
+    + oframe st HI.
+      * intros s0 Hs0. unfold updf. destruct (Nat.eqb_spec s0 s) as [->|?]; cbn; auto.
+      * intros s0 w Hs0. unfold updf. destruct (Nat.eqb_spec s0 s) as [->|?]; cbn; [|tauto].
+        rewrite EL. split; discriminate.
+    + apply oinv_set_loop; [assumption|rewrite EL; reflexivity|reflexivity].
   - (* Accept *)
     cbn [step]. destruct (backlog st) as [|w0 r] eqn:EB; [discriminate|].
-    constructor; cbn [nsess sess_of nwr wr delivered backlog enq_log lost cap];
-      try (exact (o_nd1 st HI)); try (exact (o_nd2 st HI));
-      try (exact (o_disj st HI)); try (exact (o_lt st HI)); try (exact (o_ws st HI));
-      try (exact (o_sel st HI)); try (exact (o_arr st HI)); try (exact (o_wc st HI)).
+    oframe st HI.
+    + intro w. occ_norm. rewrite EB. cbn [cnt]. lia.
     + rewrite <- app_assoc. cbn. rewrite <- (o_log st HI), EB. reflexivity.
     + pose proof (o_cap st HI) as Hc. rewrite EB in Hc. cbn in Hc. lia.
   - exact HI.
-  - (* WClose *)
-    cbn [step]. destruct (w_closed (wr st w)) eqn:EC; [exact HI|].
-    constructor; cbn [nsess sess_of nwr wr delivered backlog enq_log lost cap];
-      try (exact (o_log st HI)); try (exact (o_nd1 st HI)); try (exact (o_nd2 st HI));
-      try (exact (o_disj st HI)); try (exact (o_lt st HI)); try (exact (o_cap st HI)).
-    + intros s0 k Hs0. unfold updf at 1. destruct (Nat.eqb_spec s0 (w_sess (wr st w))) as [->|Hne]; cbn [done1 loop].
-      * intro E. destruct (o_sel st HI _ k Hs0 E) as [Hlt [Hws [Hn1 Hn2]]]. repeat split; try assumption.
-        unfold updf. destruct (Nat.eqb_spec k w); cbn; [reflexivity|assumption].
-      * intro E. destruct (o_sel st HI _ k Hs0 E) as [Hlt [Hws [Hn1 Hn2]]]. repeat split; try assumption.
-        unfold updf. destruct (Nat.eqb_spec k w); cbn; [subst; congruence|assumption].
-    + intros s0 Hs0. unfold updf. destruct (Nat.eqb_spec s0 (w_sess (wr st w))) as [->|Hne]; cbn; apply (o_arr st HI); assumption.
-    + intros s0 Hs0.
-      assert (Hc : of_sess {| nsess := nsess st; sess_of := updf (sess_of st) (w_sess (wr st w)) (done1 (sess_of st (w_sess (wr st w))));
-                              nwr := nwr st; wr := updf (wr st) w {| w_sess := w_sess (wr st w); w_ord := w_ord (wr st w); w_closed := true |};
-                              cap := cap st; backlog := backlog st; delivered := delivered st; lost := lost st; enq_log := enq_log st;
-                              lmark := lmark st; closeCh := closeCh st; lreleased := lreleased st;
-                              panic := panic st || done_panics (sess_of st (w_sess (wr st w))) |} s0 = of_sess st s0).
-      { unfold of_sess; cbn [nwr wr]. apply count_ext. intros k Hk. unfold updf. destruct (Nat.eqb_spec k w); [subst; reflexivity|reflexivity]. }
-      rewrite Hc. unfold updf. destruct (Nat.eqb_spec s0 (w_sess (wr st w))) as [->|Hne]; cbn; apply (o_wc st HI); assumption.
-    + intros k Hk. unfold updf. destruct (Nat.eqb_spec k w); cbn; [subst|]; apply (o_ws st HI); assumption.
-  - (* LMark *)
-    constructor; cbn [step nsess sess_of nwr wr delivered backlog enq_log lost cap];
-      try (exact (o_log st HI)); try (exact (o_nd1 st HI)); try (exact (o_nd2 st HI));
-      try (exact (o_disj st HI)); try (exact (o_lt st HI)); try (exact (o_cap st HI)); try (exact (o_ws st HI));
-      try (exact (o_sel st HI)); try (exact (o_arr st HI)); try (exact (o_wc st HI)).
-  - (* LSignal *)
-    constructor; cbn [step nsess sess_of nwr wr delivered backlog enq_log lost cap];
-      try (exact (o_log st HI)); try (exact (o_nd1 st HI)); try (exact (o_nd2 st HI));
-      try (exact (o_disj st HI)); try (exact (o_lt st HI)); try (exact (o_cap st HI)); try (exact (o_ws st HI));
-      try (exact (o_sel st HI)); try (exact (o_arr st HI)); try (exact (o_wc st HI)).
-  - (* LRelease *)
-    constructor; cbn [step nsess sess_of nwr wr delivered backlog enq_log lost cap];
-      try (exact (o_log st HI)); try (exact (o_nd1 st HI)); try (exact (o_nd2 st HI));
-      try (exact (o_disj st HI)); try (exact (o_lt st HI)); try (exact (o_cap st HI)); try (exact (o_ws st HI)).
-    + intros s0 k Hs0. unfold release1. destruct ((s0 <? nsess st)%nat && in_map (sess_of st s0)); cbn; apply (o_sel st HI); assumption.
-    + intros s0 Hs0. unfold release1. destruct ((s0 <? nsess st)%nat && in_map (sess_of st s0)); cbn; apply (o_arr st HI); assumption.
-    + intros s0 Hs0. change (of_sess _ s0) with (of_sess st s0).
-      unfold release1. destruct ((s0 <? nsess st)%nat && in_map (sess_of st s0)); cbn; apply (o_wc st HI); assumption.
+  - (* WClose *) cbn [step]. apply oinv_close_wrapper. assumption.
+  - (* CloseTaken *)
+    cbn [step]. pose proof (oinv_close_wrapper st w HI) as HI1.
+    assert (Hin : In w (closing (close_wrapper st w))).
+    { unfold close_wrapper. destruct (w_closed (wr st w)); cbn; apply mem_In; assumption. }
+    assert (Hc1 : cnt (closing (close_wrapper st w)) w = 1%nat).
+    { apply cnt_pos_In in Hin. pose proof (o_occ _ HI1 w) as Ho. unfold occ, places in Ho. rewrite !cnt_app in Ho. lia. }
+    assert (Hclosed : w_closed (wr (close_wrapper st w) w) = true).
+    { unfold close_wrapper. destruct (w_closed (wr st w)) eqn:EC; [assumption|]. cbn. rewrite updf_same. reflexivity. }
+    oframe (close_wrapper st w) HI1.
+    + intro x. occ_norm. rewrite cnt_remove. destruct (Nat.eqb_spec x w) as [->|Hne].
+      * rewrite Nat.eqb_refl. rewrite Hc1. lia.
+      * destruct (Nat.eqb_spec w x); [congruence|]. lia.
+    + intros x Hx. apply in_app_or in Hx. destruct Hx as [Hx|[<-|[]]]; [left; assumption|right; assumption].
+  - (* LCall *)
+    oframe st HI.
+  - (* LStep *)
+    cbn [step]. destruct (cl_of st k) eqn:EK.
+    + destruct (lmark st); oframe st HI.
+    + oframe st HI.
+    + destruct (backlog st) eqn:EB.
+      * oframe st HI.
+      * apply oinv_take_head. assumption.
+    + oframe st HI.
+      * intros s0 Hs0. unfold release1. destruct ((s0 <? nsess st)%nat && in_map (sess_of st s0)); cbn; auto.
+      * intros s0 w Hs0. unfold release1. destruct ((s0 <? nsess st)%nat && in_map (sess_of st s0)); cbn; tauto.
+    + exact HI.
 Qed.
 
 Lemma oinv_run : forall evs st, OInv st -> OInv (run evs st).
@@ -518,38 +752,190 @@ Proof.
 Qed.
 
 (* ---------------------------------------------------------------------------------------- *)
-(* top-level statements                                                                       *)
+(* the drain protocol: once closeCh is closed, a non-empty backlog always has a drainer        *)
 (* ---------------------------------------------------------------------------------------- *)
-Lemma NoDup_app_disj : forall (a b : list nat), NoDup a -> NoDup b -> (forall w, In w a -> ~ In w b) -> NoDup (a ++ b).
+Definition cl_witness (st : state) (c : close_pc) : Prop := exists k, (k < ncl st)%nat /\ cl_of st k = c.
+Definition gd_witness (st : state) : Prop :=
+  exists s, (s < nsess st)%nat /\ (loop (sess_of st s) = LPostEnq \/ loop (sess_of st s) = LDraining).
+
+Record DInv (st : state) : Prop := {
+  d_sig : lmark st = true -> closeCh st = true \/ cl_witness st CSig;
+  d_drain : closeCh st = true -> backlog st <> [] -> cl_witness st CDrain \/ gd_witness st }.
+
+Lemma dinv_init : forall c, DInv (init c).
+Proof. intro c. constructor; cbn; intros; try discriminate; congruence. Qed.
+
+(* witnesses survive a step that leaves their thread alone *)
+Lemma cl_witness_keep : forall st st' c,
+  cl_witness st c -> (ncl st <= ncl st')%nat ->
+  (forall k, (k < ncl st)%nat -> cl_of st k = c -> cl_of st' k = c) -> cl_witness st' c.
+Proof. intros st st' c [k [Hk Ek]] Hn H. exists k. split; [lia|auto]. Qed.
+
+Lemma gd_witness_keep : forall st st',
+  gd_witness st -> (nsess st <= nsess st')%nat ->
+  (forall s, (s < nsess st)%nat -> forall p, (p = LPostEnq \/ p = LDraining) -> loop (sess_of st s) = p -> loop (sess_of st' s) = p) ->
+  gd_witness st'.
 Proof.
-  induction a as [|x a IH]; intros b Ha Hb Hd; cbn; [assumption|].
-  inversion Ha; subst. constructor.
-  - intro Hin. apply in_app_or in Hin. destruct Hin as [Hin|Hin]; [contradiction|]. apply (Hd x); [left; reflexivity|assumption].
-  - apply IH; try assumption. intros w Hw. apply Hd. right; assumption.
+  intros st st' [s [Hs E]] Hn H. exists s. split; [lia|].
+  destruct E as [E|E]; [left|right]; apply (H s Hs); auto.
 Qed.
 
+Lemma dinv_frame : forall st st',
+  DInv st ->
+  (lmark st' = true -> lmark st = true) -> (closeCh st = true -> closeCh st' = true) ->
+  (closeCh st' = true -> closeCh st = true) ->
+  (backlog st' <> [] -> backlog st <> []) ->
+  (ncl st <= ncl st')%nat -> (nsess st <= nsess st')%nat ->
+  (forall k c, (k < ncl st)%nat -> (c = CSig \/ c = CDrain) -> cl_of st k = c -> cl_of st' k = c) ->
+  (forall s, (s < nsess st)%nat -> forall p, (p = LPostEnq \/ p = LDraining) -> loop (sess_of st s) = p -> loop (sess_of st' s) = p) ->
+  DInv st'.
+Proof.
+  intros st st' HI Hm Hc Hc' Hb Hn Hs Hk Hl. constructor.
+  - intro H. destruct (d_sig st HI (Hm H)) as [A|A]; [left; auto|right].
+    apply (cl_witness_keep st st' CSig A Hn). intros k Hlt E. apply (Hk k CSig Hlt); auto.
+  - intros H1 H2. destruct (d_drain st HI (Hc' H1) (Hb H2)) as [A|A]; [left|right].
+    + apply (cl_witness_keep st st' CDrain A Hn). intros k Hlt E. apply (Hk k CDrain Hlt); auto.
+    + apply (gd_witness_keep st st' A Hs Hl).
+Qed.
+
+Ltac dframe st HI :=
+  apply (dinv_frame st); auto;
+  cbn [step set_sess set_sessions set_cl sess_of backlog lmark closeCh ncl nsess cl_of];
+  try lia; try (solve [intros; auto]); try (solve [intros; congruence]).
+
+Lemma take_head_backlog : forall st, backlog (take_head st) <> [] -> backlog st <> [].
+Proof. intros st H E. unfold take_head in H. rewrite E in H. contradiction. Qed.
+
+Lemma dinv_take_head : forall st, DInv st -> DInv (take_head st).
+Proof.
+  intros st HI. apply (dinv_frame st); auto; try apply take_head_backlog;
+    unfold take_head; destruct (backlog st); cbn; auto.
+Qed.
+
+Lemma dinv_close_wrapper : forall st w, DInv st -> DInv (close_wrapper st w).
+Proof.
+  intros st w HI. unfold close_wrapper. destruct (w_closed (wr st w)); [exact HI|].
+  dframe st HI.
+  intros s Hs p Hp E. unfold updf. destruct (Nat.eqb_spec s (w_sess (wr st w))) as [->|?]; cbn; assumption.
+Qed.
+
+Lemma dinv_step : forall st e, DInv st -> DInv (exec st e).
+Proof.
+  intros st e HI. unfold exec. destruct (enabled st e) eqn:En; [|exact HI].
+  destruct e; cbn [enabled] in En; bool_hyps.
+  - (* SessionUp *)
+    dframe st HI. intros s Hs p Hp E. rewrite updf_other by lia. assumption.
+  - (* StreamIn *)
+    dframe st HI. intros s0 Hs p Hp E. unfold updf. destruct (Nat.eqb_spec s0 s) as [->|?]; cbn; assumption.
+  - (* Wrap *)
+    destruct (loop (sess_of st s)) eqn:EL; try discriminate.
+    dframe st HI. intros s0 Hs p Hp E. unfold updf. destruct (Nat.eqb_spec s0 s) as [->|?]; cbn; [|assumption].
+    rewrite EL in E. destruct Hp; subst; discriminate.
+  - (* Enqueue *)
+    cbn [step]. destruct (loop (sess_of st s)) as [|w0| | |] eqn:EL; try discriminate.
+    constructor; cbn [lmark closeCh backlog].
+    + intro Hm. destruct (d_sig st HI Hm) as [A|A]; [left; assumption|right].
+      apply (cl_witness_keep st _ CSig A); cbn; auto.
+    + intros _ _. right. exists s. split; [cbn; assumption|]. left. cbn. rewrite updf_same. reflexivity.
+  - (* Lose *)
+    cbn [step]. destruct (loop (sess_of st s)) as [|w0| | |] eqn:EL; try discriminate.
+    dframe st HI. intros s0 Hs p Hp E. unfold updf. destruct (Nat.eqb_spec s0 s) as [->|?]; cbn; [|assumption].
+    rewrite EL in E. destruct Hp; subst; discriminate.
+  - (* PostCheck *)
+    destruct (loop (sess_of st s)) eqn:EL; try discriminate.
+    constructor; cbn [step set_sess set_sessions lmark closeCh backlog].
+    + intro Hm. destruct (d_sig st HI Hm) as [A|A]; [left; assumption|right].
+      apply (cl_witness_keep st _ CSig A); cbn; auto.
+    + intros Hc _. right. exists s. split; [cbn; assumption|]. right. cbn. rewrite updf_same. cbn. rewrite Hc. reflexivity.
+  - (* GDrain *)
+    destruct (loop (sess_of st s)) eqn:EL; try discriminate.
+    cbn [step]. destruct (backlog st) eqn:EB.
+    + constructor; cbn [set_sess set_sessions lmark closeCh backlog].
+      * intro Hm. destruct (d_sig st HI Hm) as [A|A]; [left; assumption|right].
+        apply (cl_witness_keep st _ CSig A); cbn; auto.
+      * intros _ Hb. rewrite EB in Hb. contradiction.
+    + apply dinv_take_head. assumption.
+  - (* SessionDie *)
+    dframe st HI. intros s0 Hs p Hp E. unfold updf. destruct (Nat.eqb_spec s0 s) as [->|?]; cbn; assumption.
+  - (* AcceptErr *)
+    destruct (loop (sess_of st s)) eqn:EL; try discriminate.
+    cbn [step]. destruct (in_map (sess_of st s)); dframe st HI;
+      intros s0 Hs p Hp E; unfold updf; destruct (Nat.eqb_spec s0 s) as [->|?]; cbn; try assumption;
+      rewrite EL in E; destruct Hp; subst; discriminate.
+  - (* Accept *)
+    cbn [step]. destruct (backlog st) as [|w0 r] eqn:EB; [discriminate|].
+    dframe st HI.
+  - exact HI.
+  - cbn [step]. apply dinv_close_wrapper. assumption.
+  - (* CloseTaken *)
+    cbn [step]. pose proof (dinv_close_wrapper st w HI) as HI1.
+    apply (dinv_frame (close_wrapper st w)); auto.
+  - (* LCall *)
+    dframe st HI. intros k c Hk Hc E. rewrite updf_other by lia. assumption.
+  - (* LStep *)
+    rename H into Hk. cbn [step]. destruct (cl_of st k) eqn:EK.
+    + (* CStart *)
+      destruct (lmark st) eqn:ELM.
+      * dframe st HI. intros k0 c Hk0 Hc E. unfold updf. destruct (Nat.eqb_spec k0 k) as [->|?]; [|assumption].
+        rewrite EK in E. destruct Hc; subst; discriminate.
+      * constructor; cbn [lmark closeCh backlog].
+        -- intros _. right. exists k. split; [cbn; assumption|]. cbn. rewrite updf_same. reflexivity.
+        -- intros Hc Hb. destruct (d_drain st HI Hc Hb) as [A|A]; [left|right].
+           ++ apply (cl_witness_keep st _ CDrain A); cbn; auto. intros k0 Hk0 E. unfold updf.
+              destruct (Nat.eqb_spec k0 k) as [->|?]; [congruence|assumption].
+           ++ apply (gd_witness_keep st _ A); cbn; auto.
+    + (* CSig *)
+      constructor; cbn [lmark closeCh backlog].
+      * intros _. left. reflexivity.
+      * intros _ _. left. exists k. split; [cbn; assumption|]. cbn. rewrite updf_same. reflexivity.
+    + (* CDrain *)
+      destruct (backlog st) eqn:EB.
+      * constructor; cbn [set_cl lmark closeCh backlog].
+        -- intro Hm. destruct (d_sig st HI Hm) as [A|A]; [left; assumption|right].
+           apply (cl_witness_keep st _ CSig A); cbn; auto. intros k0 Hk0 E. unfold updf.
+           destruct (Nat.eqb_spec k0 k) as [->|?]; [congruence|assumption].
+        -- intros _ Hb. rewrite EB in Hb. contradiction.
+      * apply dinv_take_head. assumption.
+    + (* CRel *)
+      dframe st HI.
+      * intros k0 c Hk0 Hc E. unfold updf. destruct (Nat.eqb_spec k0 k) as [->|?]; [|assumption].
+        rewrite EK in E. destruct Hc; subst; discriminate.
+      * intros s0 Hs p Hp E. unfold release1. destruct ((s0 <? nsess st)%nat && in_map (sess_of st s0)); cbn; assumption.
+    + exact HI.
+Qed.
+
+Lemma dinv_run : forall evs st, DInv st -> DInv (run evs st).
+Proof.
+  induction evs as [|e r IH]; intros st HI; cbn; [assumption|]. apply IH. apply dinv_step. assumption.
+Qed.
+
+(* ---------------------------------------------------------------------------------------- *)
+(* top-level statements                                                                       *)
+(* ---------------------------------------------------------------------------------------- *)
 Definition selecting_ok (st : state) : Prop :=
   forall s w, (s < nsess st)%nat -> loop (sess_of st s) = LSelecting w ->
-              (w < nwr st)%nat /\ w_sess (wr st w) = s /\ ~ In w (delivered st ++ backlog st ++ lost st).
+              (w < nwr st)%nat /\ w_sess (wr st w) = s /\ ~ In w (places st).
 
 Lemma once : forall c evs, let st := run evs (init c) in
-  delivered st ++ backlog st = enq_log st /\
-  NoDup (delivered st ++ backlog st ++ lost st) /\
-  (forall w, In w (delivered st ++ backlog st ++ lost st) -> (w < nwr st)%nat) /\
+  recv_log st ++ backlog st = enq_log st /\
+  NoDup (places st) /\
+  (forall w, In w (places st) -> (w < nwr st)%nat) /\
   selecting_ok st /\
+  (forall w, (w < nwr st)%nat -> In w (places st) \/ loop (sess_of st (w_sess (wr st w))) = LSelecting w) /\
   (length (backlog st) <= cap st)%nat /\
   (forall s, (s < nsess st)%nat ->
      arrived (sess_of st s) = (inq (sess_of st s) + count (fun w => Nat.eqb (w_sess (wr st w)) s) (nwr st))%nat).
 Proof.
   intros c evs st. pose proof (oinv_run evs (init c) (oinv_init c)) as HI. fold st in HI.
   split; [exact (o_log st HI)|].
+  split; [apply NoDup_of_cnt; exact (o_occ st HI)|].
+  split; [intros w Hw; apply (o_lt st HI); apply cnt_pos_In; assumption|].
   split.
-  { rewrite app_assoc, (o_log st HI). apply NoDup_app_disj; [exact (o_nd1 st HI)|exact (o_nd2 st HI)|exact (o_disj st HI)]. }
+  { intros s w Hs E. destruct (o_sel st HI s w Hs E) as [A [B C]]. repeat split; try assumption.
+    intro Hin. apply cnt_pos_In in Hin. unfold occ in C. lia. }
   split.
-  { intros w Hw. rewrite app_assoc, (o_log st HI) in Hw. apply in_app_or in Hw. apply (o_lt st HI). assumption. }
-  split.
-  { intros s w Hs E. destruct (o_sel st HI s w Hs E) as [H1 [H2 [H3 H4]]]. repeat split; try assumption.
-    rewrite app_assoc, (o_log st HI). intro Hin. apply in_app_or in Hin. destruct Hin; contradiction. }
+  { intros w Hw. destruct (o_cov st HI w Hw) as [A|A]; [left|right; assumption].
+    apply cnt_pos_In. unfold occ in A. lia. }
   split; [exact (o_cap st HI)|].
   intros s Hs. rewrite (o_arr st HI s Hs), (o_wc st HI s Hs). reflexivity.
 Qed.
@@ -564,65 +950,90 @@ Proof.
   split; [exact (r_panic st HI)|]. intros s Hs. split; [apply refs_nonneg; assumption|apply (r_refs st HI); assumption].
 Qed.
 
+Lemma nsess_take_head : forall st, nsess (take_head st) = nsess st.
+Proof. intro st. unfold take_head. destruct (backlog st); reflexivity. Qed.
+Lemma sess_take_head : forall st, sess_of (take_head st) = sess_of st.
+Proof. intro st. unfold take_head. destruct (backlog st); reflexivity. Qed.
+Lemma nsess_close_wrapper : forall st w, nsess (close_wrapper st w) = nsess st.
+Proof. intros st w. unfold close_wrapper. destruct (w_closed (wr st w)); reflexivity. Qed.
+
 Lemma nsess_mono : forall st e, (nsess st <= nsess (exec st e))%nat.
 Proof.
   intros st e. unfold exec. destruct (enabled st e); [|lia].
-  destruct e; cbn [step set_sess nsess]; try lia.
+  destruct e; cbn [step set_sess set_sessions nsess]; try lia.
   - destruct (loop (sess_of st s)); cbn; lia.
   - destruct (loop (sess_of st s)); cbn; lia.
+  - destruct (backlog st) eqn:EB; cbn; [lia|]. rewrite nsess_take_head. lia.
   - destruct (in_map (sess_of st s)); cbn; lia.
   - destruct (backlog st); cbn; lia.
-  - destruct (w_closed (wr st w)); cbn; lia.
+  - rewrite nsess_close_wrapper. lia.
+  - rewrite nsess_close_wrapper. lia.
+  - destruct (cl_of st k); cbn; try lia.
+    + destruct (lmark st); cbn; lia.
+    + destruct (backlog st) eqn:EB; cbn; [lia|]. rewrite nsess_take_head. lia.
 Qed.
 
-Lemma nsess_mono_run : forall evs st, (nsess st <= nsess (run evs st))%nat.
+(* wg.Done() on a session record *)
+Lemma wgz_done1 : forall x, (registered x = false -> refs x = 0) ->
+  (wg_zero x = true -> wg_zero (done1 x) = true) /\
+  (wg_zero x = false -> wg_zero (done1 x) = true -> refs (done1 x) = 0 /\ registered (done1 x) = true).
 Proof.
-  induction evs as [|e r IH]; intros st; [cbn; lia|]. change (run (e :: r) st) with (run r (exec st e)).
-  pose proof (nsess_mono st e). pose proof (IH (exec st e)). lia.
+  intros x Hx. unfold done1; cbn. split.
+  - intros ->. reflexivity.
+  - intros -> Hz. cbn in Hz. apply Z.eqb_eq in Hz. split; [assumption|].
+    destruct (registered x) eqn:ER; [reflexivity|]. specialize (Hx eq_refl). lia.
+Qed.
+
+Definition wgz_rel (st st' : state) (s : nat) : Prop :=
+  (wg_zero (sess_of st s) = true -> wg_zero (sess_of st' s) = true) /\
+  (wg_zero (sess_of st s) = false -> wg_zero (sess_of st' s) = true ->
+   refs (sess_of st' s) = 0 /\ registered (sess_of st' s) = true).
+
+Lemma wgz_same : forall st st' s, wg_zero (sess_of st' s) = wg_zero (sess_of st s) -> wgz_rel st st' s.
+Proof. intros st st' s H. unfold wgz_rel. rewrite H. split; [tauto|congruence]. Qed.
+
+Lemma wgz_close_wrapper : forall st w s, RInv st -> (s < nsess st)%nat -> wgz_rel st (close_wrapper st w) s.
+Proof.
+  intros st w s HI Hs. unfold close_wrapper. destruct (w_closed (wr st w)) eqn:EC; [apply wgz_same; reflexivity|].
+  unfold wgz_rel. cbn [sess_of]. unfold updf. destruct (Nat.eqb_spec s (w_sess (wr st w))) as [E|NE]; [|split; [tauto|congruence]].
+  rewrite <- E. apply wgz_done1. intro ER. apply (r_unreg st HI s Hs ER).
 Qed.
 
 (* one step: wg_zero is monotone, and when it becomes true the counter is zero in the new state *)
-Lemma wgz_step : forall st e s, RInv st -> (s < nsess st)%nat ->
-  (wg_zero (sess_of st s) = true -> wg_zero (sess_of (exec st e) s) = true) /\
-  (wg_zero (sess_of st s) = false -> wg_zero (sess_of (exec st e) s) = true ->
-   refs (sess_of (exec st e) s) = 0 /\ registered (sess_of (exec st e) s) = true).
+Lemma wgz_step : forall st e s, RInv st -> (s < nsess st)%nat -> wgz_rel st (exec st e) s.
 Proof.
-  intros st e s HI Hs. unfold exec. destruct (enabled st e) eqn:En; [|split; [tauto|congruence]].
-  assert (Hd : forall x, (registered x = false -> refs x = 0) ->
-               (wg_zero x = true -> wg_zero (done1 x) = true) /\
-               (wg_zero x = false -> wg_zero (done1 x) = true -> refs (done1 x) = 0 /\ registered (done1 x) = true)).
-  { intros x Hx. unfold done1; cbn. split.
-    - intros ->. reflexivity.
-    - intros -> Hz. cbn in Hz. apply Z.eqb_eq in Hz. split; [assumption|].
-      destruct (registered x) eqn:ER; [reflexivity|]. specialize (Hx eq_refl). lia. }
+  intros st e s HI Hs. unfold exec. destruct (enabled st e) eqn:En; [|apply wgz_same; reflexivity].
   assert (Hreg : forall k, (k < nsess st)%nat -> registered (sess_of st k) = false -> refs (sess_of st k) = 0).
   { intros k Hk ER. apply (r_unreg st HI k Hk ER). }
-  destruct e; cbn [enabled] in En; bool_hyps; cbn [step set_sess sess_of].
-  - unfold updf. destruct (Nat.eqb_spec s (nsess st)); [lia|]. split; [tauto|congruence].
-  - unfold updf. destruct (Nat.eqb_spec s s0); subst; cbn; split; try tauto; congruence.
-  - unfold updf. destruct (Nat.eqb_spec s s0); subst; cbn; split; try tauto; congruence.
-  - destruct (loop (sess_of st s0)); cbn [sess_of]; try (split; [tauto|congruence]).
-    unfold updf. destruct (Nat.eqb_spec s s0); subst; cbn; split; try tauto; congruence.
-  - destruct (loop (sess_of st s0)); cbn [sess_of]; try (split; [tauto|congruence]).
-    unfold updf. destruct (Nat.eqb_spec s s0); subst; cbn; split; try tauto; congruence.
-  - unfold updf. destruct (Nat.eqb_spec s s0); subst; cbn; split; try tauto; congruence.
-  - destruct (in_map (sess_of st s0)) eqn:EM; cbn [set_sess sess_of].
-    + unfold updf. destruct (Nat.eqb_spec s s0); [subst|split; [tauto|congruence]].
-      cbn [wg_zero refs registered].
-      exact (Hd _ (Hreg s0 Hs)).
-    + unfold updf. destruct (Nat.eqb_spec s s0); subst; cbn; split; try tauto; congruence.
-  - destruct (backlog st); cbn [sess_of]; split; try tauto; congruence.
-  - split; [tauto|congruence].
-  - destruct (w_closed (wr st w)) eqn:EC; cbn [sess_of]; [split; [tauto|congruence]|].
-    unfold updf. destruct (Nat.eqb_spec s (w_sess (wr st w))) as [E|NE]; [|split; [tauto|congruence]].
-    rewrite <- E.
-    exact (Hd _ (Hreg s Hs)).
-  - split; [tauto|congruence].
-  - split; [tauto|congruence].
-  - unfold release1. apply Nat.ltb_lt in Hs. rewrite Hs. apply Nat.ltb_lt in Hs. cbn [andb].
-    destruct (in_map (sess_of st s)) eqn:EM; [|split; [tauto|congruence]].
-    cbn [wg_zero refs registered].
-    exact (Hd _ (Hreg s Hs)).
+  destruct e; cbn [enabled] in En; bool_hyps; cbn [step set_sess set_sessions].
+  - apply wgz_same. cbn. unfold updf. destruct (Nat.eqb_spec s (nsess st)); [lia|reflexivity].
+  - apply wgz_same. cbn. unfold updf. destruct (Nat.eqb_spec s s0); subst; reflexivity.
+  - apply wgz_same. cbn. unfold updf. destruct (Nat.eqb_spec s s0); subst; reflexivity.
+  - destruct (loop (sess_of st s0)); try (apply wgz_same; reflexivity).
+    apply wgz_same. cbn. unfold updf. destruct (Nat.eqb_spec s s0); subst; reflexivity.
+  - destruct (loop (sess_of st s0)); try (apply wgz_same; reflexivity).
+    apply wgz_same. cbn. unfold updf. destruct (Nat.eqb_spec s s0); subst; reflexivity.
+  - apply wgz_same. cbn. unfold updf. destruct (Nat.eqb_spec s s0); subst; reflexivity.
+  - destruct (backlog st) eqn:EB.
+    + apply wgz_same. cbn. unfold updf. destruct (Nat.eqb_spec s s0); subst; reflexivity.
+    + apply wgz_same. rewrite sess_take_head. reflexivity.
+  - apply wgz_same. cbn. unfold updf. destruct (Nat.eqb_spec s s0); subst; reflexivity.
+  - destruct (in_map (sess_of st s0)) eqn:EM; cbn [set_sess set_sessions].
+    + unfold wgz_rel, set_sess, set_sessions. cbn [sess_of]. unfold updf. destruct (Nat.eqb_spec s s0); [subst|split; [tauto|congruence]].
+      cbn [wg_zero refs registered]. exact (wgz_done1 _ (Hreg s0 Hs)).
+    + apply wgz_same. cbn. unfold updf. destruct (Nat.eqb_spec s s0); subst; reflexivity.
+  - destruct (backlog st); apply wgz_same; reflexivity.
+  - apply wgz_same; reflexivity.
+  - apply wgz_close_wrapper; assumption.
+  - pose proof (wgz_close_wrapper st w s HI Hs) as H. unfold wgz_rel in *. cbn [sess_of]. exact H.
+  - apply wgz_same; reflexivity.
+  - destruct (cl_of st k); try (apply wgz_same; reflexivity).
+    + destruct (lmark st); apply wgz_same; reflexivity.
+    + destruct (backlog st) eqn:EB; [apply wgz_same; reflexivity|].
+      apply wgz_same. rewrite sess_take_head. reflexivity.
+    + unfold wgz_rel. cbn [sess_of]. unfold release1. apply Nat.ltb_lt in Hs. rewrite Hs. apply Nat.ltb_lt in Hs. cbn [andb].
+      destruct (in_map (sess_of st s)) eqn:EM; [|split; [tauto|congruence]].
+      cbn [wg_zero refs registered]. exact (wgz_done1 _ (Hreg s Hs)).
 Qed.
 
 Lemma wgz_mono_run : forall evs st s, RInv st -> (s < nsess st)%nat ->
@@ -633,7 +1044,24 @@ Proof.
   apply (wgz_step st e s HI Hs). assumption.
 Qed.
 
-(* a session of the initial segment that does not exist yet has the default record *)
+Lemma new_session_not_zero : forall st e s, (nsess st <= s)%nat -> (s < nsess (exec st e))%nat ->
+  wg_zero (sess_of (exec st e) s) = false.
+Proof.
+  intros st e s Hge Hs. unfold exec in *. destruct (enabled st e) eqn:En; [|lia].
+  destruct e; cbn [step set_sess set_sessions nsess sess_of] in *; try lia.
+  - assert (s = nsess st) by lia. subst s. rewrite updf_same. destruct (lmark st); reflexivity.
+  - destruct (loop (sess_of st s0)); cbn in Hs; lia.
+  - destruct (loop (sess_of st s0)); cbn in Hs; lia.
+  - destruct (backlog st) eqn:EB; cbn in Hs; [lia|]. rewrite nsess_take_head in Hs. lia.
+  - destruct (in_map (sess_of st s0)); cbn in Hs; lia.
+  - destruct (backlog st); cbn in Hs; lia.
+  - rewrite nsess_close_wrapper in Hs. lia.
+  - rewrite nsess_close_wrapper in Hs. lia.
+  - destruct (cl_of st k); cbn in Hs; try lia.
+    + destruct (lmark st); cbn in Hs; lia.
+    + destruct (backlog st) eqn:EB; cbn in Hs; [lia|]. rewrite nsess_take_head in Hs. lia.
+Qed.
+
 Lemma refcount_closed_iff : forall c evs s, let st := run evs (init c) in
   (s < nsess st)%nat ->
   (wg_zero (sess_of st s) = true <->
@@ -643,8 +1071,7 @@ Lemma refcount_closed_iff : forall c evs s, let st := run evs (init c) in
      in_map (sess_of st1 s) = false /\ open_w st1 s = O).
 Proof.
   intros c evs s st Hs. split.
-  - (* -> : by induction from the right *)
-    subst st. revert Hs. induction evs as [|e evs IH] using rev_ind; intros Hs Hz.
+  - subst st. revert Hs. induction evs as [|e evs IH] using rev_ind; intros Hs Hz.
     + cbn in Hs. lia.
     + rewrite run_app in Hs, Hz. cbn [run fold_left] in Hs, Hz.
       set (st0 := run evs (init c)) in *.
@@ -660,15 +1087,7 @@ Proof.
            pose proof (r_refs _ HI1 s Hs) as Hrr. rewrite Hr0 in Hrr.
            split; [assumption|]. split; [assumption|].
            unfold b2z in Hrr. destruct (in_map (sess_of (exec st0 e) s)); split; try reflexivity; lia.
-      * (* the session was created by this very step: SessionUp, whose wg_zero is false *)
-        exfalso. unfold exec in Hs, Hz. destruct (enabled st0 e) eqn:En; [|lia].
-        destruct e; cbn [step set_sess nsess sess_of] in Hs, Hz; try lia.
-        -- assert (s = nsess st0) by lia. subst s. rewrite updf_same in Hz. destruct (lmark st0); discriminate.
-        -- destruct (loop (sess_of st0 s0)); cbn in Hs; lia.
-        -- destruct (loop (sess_of st0 s0)); cbn in Hs; lia.
-        -- destruct (in_map (sess_of st0 s0)); cbn in Hs; lia.
-        -- destruct (backlog st0); cbn in Hs; lia.
-        -- destruct (w_closed (wr st0 w)); cbn in Hs; lia.
+      * rewrite (new_session_not_zero st0 e s Hge Hs) in Hz. discriminate.
   - intros [e1 [e2 [Heq [H1 [H2 [H3 H4]]]]]]. subst st. rewrite Heq, run_app.
     pose proof (rinv_run e1 (init c) (rinv_init c)) as HI1.
     apply wgz_mono_run; [assumption|assumption|].
@@ -676,33 +1095,8 @@ Proof.
     rewrite (r_refs _ HI1 s H1), H3, H4. reflexivity.
 Qed.
 
-(* "closing the listener lets sessions end once their connections are closed" *)
-Definition sessions_end_full : Prop :=
-  forall c evs, let st := run evs (init c) in
-    lreleased st = true ->
-    forall s, (s < nsess st)%nat ->
-      (forall w, In w (delivered st) -> w_sess (wr st w) = s -> w_closed (wr st w) = true) ->
-      is_selecting (loop (sess_of st s)) = false ->
-      sclosed (sess_of st s) = true.
-
-Definition witness_backlog : list event := [SessionUp; StreamIn 0; Wrap 0; Enqueue 0; LMark; LSignal; LRelease].
-Definition witness_lost : list event :=
-  [SessionUp; StreamIn 0; Wrap 0; Enqueue 0; StreamIn 0; Wrap 0; LMark; LSignal; Lose 0; LRelease; Accept; WClose 0].
-
-Lemma sessions_end_refuted : ~ sessions_end_full.
-Proof.
-  intro H. specialize (H 1%nat witness_backlog). cbn zeta in H.
-  assert (Hr : lreleased (run witness_backlog (init 1)) = true) by (vm_compute; reflexivity).
-  specialize (H Hr 0%nat).
-  assert (Hs : (0 < nsess (run witness_backlog (init 1)))%nat) by (vm_compute; lia).
-  specialize (H Hs).
-  assert (Hd : delivered (run witness_backlog (init 1)) = []) by (vm_compute; reflexivity).
-  rewrite Hd in H. specialize (H (fun w (F : In w []) => match F with end)).
-  assert (Hl : is_selecting (loop (sess_of (run witness_backlog (init 1)) 0%nat)) = false) by (vm_compute; reflexivity).
-  specialize (H Hl). vm_compute in H. discriminate.
-Qed.
-
-Lemma sessions_end_partial : forall c evs, let st := run evs (init c) in
+(* every wrapper of the session closed => the session ends once the listener released its reference *)
+Lemma sessions_end_if_all_closed : forall c evs, let st := run evs (init c) in
   lreleased st = true ->
   forall s, (s < nsess st)%nat ->
     (forall w, (w < nwr st)%nat -> w_sess (wr st w) = s -> w_closed (wr st w) = true) ->
@@ -722,6 +1116,49 @@ Proof.
     pose proof (r_zero st HI s Hs ER Hr) as Hz.
     split; [apply (r_zc st HI s Hs Hz)|]. intros _. split; assumption.
   - split; [apply (r_unreg st HI s Hs ER)|]. discriminate.
+Qed.
+
+(* "closing the listener lets sessions end once their connections are closed": at rest, after a
+   listener.Close has run, a session whose Accept-ed conns are all closed is closed *)
+Definition sessions_end_full : Prop :=
+  forall c evs, let st := run evs (init c) in
+    lreleased st = true -> at_rest st = true ->
+    forall s, (s < nsess st)%nat ->
+      (forall w, In w (delivered st) -> w_sess (wr st w) = s -> w_closed (wr st w) = true) ->
+      sclosed (sess_of st s) = true.
+
+Lemma sessions_end : sessions_end_full.
+Proof.
+  intros c evs st Hrel Hrest s Hs Hdel.
+  pose proof (rinv_run evs (init c) (rinv_init c)) as HR. fold st in HR.
+  pose proof (oinv_run evs (init c) (oinv_init c)) as HO. fold st in HO.
+  pose proof (dinv_run evs (init c) (dinv_init c)) as HD. fold st in HD.
+  unfold at_rest in Hrest. apply andb_prop in Hrest. destruct Hrest as [Hrest Hcl].
+  apply andb_prop in Hrest. destruct Hrest as [Hcs Hls].
+  assert (Ecl : closing st = []) by (destruct (closing st); [reflexivity|discriminate]).
+  assert (Hk : forall k, (k < ncl st)%nat -> cl_of st k = CDone).
+  { intros k Hk. rewrite forallb_forall in Hcs. specialize (Hcs k). rewrite in_seq in Hcs.
+    specialize (Hcs ltac:(lia)). destruct (cl_of st k); try discriminate. reflexivity. }
+  assert (Hl : forall s0, (s0 < nsess st)%nat -> loop (sess_of st s0) = LAccepting \/ loop (sess_of st s0) = LExited).
+  { intros s0 Hs0. rewrite forallb_forall in Hls. specialize (Hls s0). rewrite in_seq in Hls.
+    specialize (Hls ltac:(lia)). destruct (loop (sess_of st s0)); try discriminate; auto. }
+  destruct (r_rel st HR Hrel) as [Hm _].
+  assert (Hc : closeCh st = true).
+  { destruct (d_sig st HD Hm) as [A|[k [Hk1 Hk2]]]; [assumption|]. rewrite (Hk k Hk1) in Hk2. discriminate. }
+  assert (Eb : backlog st = []).
+  { destruct (backlog st) eqn:EB; [reflexivity|]. exfalso.
+    assert (Hne : backlog st <> []) by (rewrite EB; discriminate).
+    destruct (d_drain st HD Hc Hne) as [[k [Hk1 Hk2]]|[s0 [Hs0 E]]].
+    - rewrite (Hk k Hk1) in Hk2. discriminate.
+    - destruct (Hl s0 Hs0) as [A|A]; rewrite A in E; destruct E; discriminate. }
+  apply (sessions_end_if_all_closed c evs Hrel s Hs).
+  fold st. intros w Hw Ews.
+  destruct (o_cov st HO w Hw) as [A|A].
+  - assert (Hin : In w (places st)) by (apply cnt_pos_In; unfold occ in A; lia).
+    unfold places in Hin. rewrite Eb, Ecl in Hin. cbn in Hin. apply in_app_or in Hin. destruct Hin as [Hin|Hin].
+    + apply Hdel; assumption.
+    + apply (o_acl st HO). assumption.
+  - rewrite Ews in A. destruct (Hl s Hs) as [B|B]; rewrite B in A; discriminate.
 Qed.
 
 (* ---------------------------------------------------------------------------------------- *)
